@@ -8,25 +8,47 @@ PROP = "C05"
 COUNT = {"quick": 260, "thorough": 5000, "search": 2500}
 PARALLEL = True
 REL = "cryocat/cryomotl.py"
-FIELDS = ["x", "y", "z", "shift_x", "shift_y", "shift_z", "phi", "theta", "psi", "tomo_id"]
+# the 20 fields in Motl.motl_columns order (= Lean `Field.all`); wire rows carry all of them
+COLS = ["score", "geom1", "geom2", "subtomo_id", "tomo_id", "object_id", "subtomo_mean", "x", "y", "z",
+        "shift_x", "shift_y", "shift_z", "geom3", "geom4", "geom5", "phi", "psi", "theta", "class"]
+ID, TOMO, X, Y, Z, SX, SY, SZ, PHI, PSI, THETA = 3, 4, 7, 8, 9, 10, 11, 12, 16, 17, 18
+FIELDS = ["x", "y", "z", "shift_x", "shift_y", "shift_z", "phi", "theta", "psi", "tomo_id"]  # the pose fields, as `_p10` orders them
+POSE_IDX = [X, Y, Z, SX, SY, SZ, PHI, THETA, PSI, TOMO]
 
 RULE = ("histories of 1..6 (thorough: up to 30) operations update_coordinates / scale_coordinates(f>0) / shift_positions(s) / "
-        "apply_rotation(Q) / flip_handedness(dims) on particle lists of 1..8 particles in 1..3 tomograms; positions and shifts on the "
-        "dyadic grid 2^-10 with both signs, a share of exact half-integer complete positions (ties) and of off-grid values; Euler angles "
-        "generic, gimbal (theta 0/180), multiples of 90, negative and >360; dimension tables: one triple (list / array / DataFrame / "
-        "text file) or rows per tomogram (shuffled, with extra tomograms); a share of histories built around the composition clauses "
-        "(shift,shift), (rotate,rotate), (flip,flip). After EVERY operation the complete positions, the x/y/z/shift fields and the "
-        "orientation matrices (own products of elementary rotations, never scipy Euler code) are compared with the Lean model run on the "
-        "state the real code had before the operation (bit-exact for update/scale/flip, 1e-9 for shift/rotate) and with the statement "
-        "evaluated directly; the final pose is compared with the abstract specification folded over the whole history. "
+        "apply_rotation(Q) / flip_handedness(dims) on particle lists of 1..8 particles in 1..3 tomograms (all 20 fields filled, distinct "
+        "unordered subtomo ids); positions and shifts on the dyadic grid 2^-10 with both signs, a share of exact half-integer complete "
+        "positions (ties), of off-grid values and of rows with ALL shifts zero at non-integer coordinates (also the history scale(1.5) -> "
+        "update of a freshly picked list); Euler angles generic, gimbal (theta 0/180), multiples of 90, negative and >360; in-plane "
+        "rotations of either sense; DataFrame index default / permuted 0..n-1 / offset / sparse-descending, re-imposed by the caller before "
+        "EVERY operation in 60 % of the cases (shift_positions resets it); dimension tables: one triple (list / ndarray / float or int "
+        "DataFrame / text file / IMOD .com file) or rows per tomogram (ndarray / DataFrame / text file; shuffled, extra tomograms, "
+        "duplicate rows with equal or conflicting z). QUANTIFIER of flip_handedness: the statement speaks of a particle only when the "
+        "dimensions cover its tomogram (a triple, or a table with at least one row for it whose rows agree); a call without dimensions, a "
+        "table lacking the particle's tomogram or giving it two z sizes is outside the quantifier: there the real code is compared with "
+        "the model of the code only (kind corr), never with the statement (no spec finding, Lean specOp = none). "
+        "Keywords: every option is omitted (library default) / passed by keyword / positionally in shares of ~30 %. "
+        "Cross-call state: 30 % of the cases re-use one caller-owned argument object (shift vector, Rotation, dimension list / ndarray / "
+        "DataFrame / file path) for two calls, in 40 % of those legitimately rewritten by the caller in between; 15 % run TWO lists in one "
+        "process with interleaved operations and shared arguments; every argument is compared before/after the call (DataFrame: values "
+        "and shape, not the column labels dimensions_load assigns), the list not operated on must stay bit-identical, and with "
+        "inplace=False so must the original. After EVERY operation all 20 fields, their dtypes, get_coordinates()/get_angles() (with "
+        "dtype; per tomogram and get_rotations() in 35 %) are observed: text or non-finite values in a pose field are spec findings; "
+        "complete positions and orientation MATRICES (own products of elementary rotations, never scipy Euler code; an implementation "
+        "may store any Euler triple of the right orientation) are compared with the statement evaluated directly (spec) and with the "
+        "Lean model run on the state the real code had before the operation (corr; x,y,z,shifts bit-exact for update/scale/flip, 1e-9 "
+        "otherwise; the non-pose fields bit-exact); exact steps also go through the Lean verified checkers; the final pose of each "
+        "list is compared with the specification folded over its whole history. "
         "non-trivial = >=2 operations of >=2 kinds, some non-zero shift and some non-zero theta in the list; distinct = distinct case content")
 ASSUMPTIONS = [
     "scipy Rotation.from_euler('zxz', degrees=True) is Rz(psi)Rx(theta)Rz(phi); as_euler returns a triple that reproduces the matrix (also at gimbal lock); "
     "'*' is the matrix product and apply() the matrix-vector product -- each compared on every case against the harness's own elementary-rotation "
-    "products within 1e-9 and probed separately (probes())",
+    "products within 1e-9 and probed separately (probes()); over the reals these assumptions are satisfiable: Lemmas/C05_Euler proves that every proper "
+    "rotation has zxz Euler angles and Props/C05 instantiates every theorem with realSvc (no assumption left)",
     "numpy/pandas float64 +,-,* are IEEE-754 binary64 like Lean Float (update/scale/flip steps are compared bit for bit)",
     "decimal.Decimal(float).to_integral_value(ROUND_HALF_UP) rounds the exact binary value half away from zero = Lean roundHalfUp on the exact rational (compared on every update step, incl. ties)",
     "libm cos/sin/atan2/acos used by the Lean driver's Float services agree with numpy within 1e-12 (inside the 1e-9 tolerance)",
+    "flip_handedness: calls whose dimensions do not cover a particle's tomogram (none given / no row / conflicting rows) are outside the property's quantifier",
 ]
 TRUSTED = ["harness elementary-rotation oracle rot_zxz() in props/c05.py (3x3 products with math.cos/math.sin)",
            "Drv/C05.lean Float services (cos/sin in degrees, zxz Euler extraction, exact Float->Rat decoding)"]
@@ -34,6 +56,35 @@ TOL = 1e-9
 
 
 # ------------------------------------------------------------------ translator
+IOREL = "cryocat/ioutils.py"
+
+# documented values (what the property's statement and the docstrings say); used as FALL-BACK when an anchor is missing so
+# that a missing anchor never changes the model silently (the missing anchor itself breaks `anchors_ok`)
+DOC = dict(
+    coords=[["x", "y", "z"], ["shift_x", "shift_y", "shift_z"]],
+    rounded=[["x", "x", "shift_x", "ROUND_HALF_UP"], ["y", "y", "shift_y", "ROUND_HALF_UP"], ["z", "z", "shift_z", "ROUND_HALF_UP"]],
+    resid=[["shift_x", "x", "shift_x", "x", True], ["shift_y", "y", "shift_y", "y", True], ["shift_z", "z", "shift_z", "z", True]],
+    scale=[["x", "y", "z"], ["shift_"]],
+    euler=[["apply_rotation.from_euler", "zxz", "degrees"], ["apply_rotation.as_euler", "zxz", "degrees"],
+           ["shift_positions.from_euler", "zxz", "degrees"], ["get_rotations.from_euler", "zxz", "degrees"]],
+    angle_cols=[["phi", "theta", "psi"]] * 5,
+    side=True,
+    shift_targets=[["shift_x", 0], ["shift_y", 1], ["shift_z", 2]],
+    flip=[1, 1, 2, 2],
+    signatures=[["Motl.get_coordinates", "tomo_number", "None"], ["Motl.get_angles", "tomo_number", "None"],
+                ["Motl.get_rotations", "tomo_number", "None"], ["Motl.update_coordinates", "", ""],
+                ["Motl.scale_coordinates", "scaling_factor", ""], ["Motl.shift_positions", "shift", ""],
+                ["Motl.shift_positions", "inplace", "True"], ["Motl.apply_rotation", "rotation", ""],
+                ["Motl.flip_handedness", "tomo_dimensions", "None"], ["dimensions_load", "input_dims", ""],
+                ["dimensions_load", "tomo_idx", "None"]],
+)
+BODIES = [("getCoordinatesBody", REL, "Motl.get_coordinates"), ("getAnglesBody", REL, "Motl.get_angles"),
+          ("getRotationsBody", REL, "Motl.get_rotations"), ("updateBody", REL, "Motl.update_coordinates"),
+          ("scaleBody", REL, "Motl.scale_coordinates"), ("shiftBody", REL, "Motl.shift_positions"),
+          ("rotateBody", REL, "Motl.apply_rotation"), ("flipBody", REL, "Motl.flip_handedness"),
+          ("dimensionsLoadBody", IOREL, "dimensions_load")]
+
+
 def _u(n):
     return ast.unparse(n).replace(" ", "").replace("'", '"')
 
@@ -43,6 +94,62 @@ def _str_list(node):
     if not (isinstance(v, (list, tuple)) and all(isinstance(s, str) for s in v)):
         raise core.AnchorMissing("not a list of strings: " + _u(node))
     return list(v)
+
+
+def _inner(fn, what):
+    """the single function defined inside `fn` (whatever its name)"""
+    inner = [s for s in ast.walk(fn) if isinstance(s, ast.FunctionDef) and s is not fn]
+    if len(inner) != 1:
+        raise core.AnchorMissing(f"{what}: expected exactly one inner function, found {len(inner)}")
+    return inner[0]
+
+
+class _Alpha(ast.NodeTransformer):
+    def __init__(self, names):
+        self.names = names
+
+    def visit_Name(self, n):
+        return ast.copy_location(ast.Name(id=self.names.get(n.id, n.id), ctx=n.ctx), n)
+
+    def visit_arg(self, a):
+        a.arg = self.names.get(a.arg, a.arg)
+        return a
+
+    def visit_FunctionDef(self, f):
+        f.name = self.names.get(f.name, f.name)
+        self.generic_visit(f)
+        return f
+
+
+def alpha_lines(fn):
+    """normalised dump of a whole function: docstrings dropped, every LOCAL name (parameters except self, assigned names,
+    loop / with targets, inner functions) replaced by v0, v1, ... in order of first binding (structure only, so a harmless
+    rename of a local variable does not change the dump), then unparsed statement by statement, one line per list entry"""
+    fn = copy.deepcopy(fn)
+    order = []
+
+    def note(x):
+        if x != "self" and x not in order:
+            order.append(x)
+
+    for n in ast.walk(fn):
+        if isinstance(n, (ast.FunctionDef, ast.AsyncFunctionDef)):
+            if n.body and isinstance(n.body[0], ast.Expr) and isinstance(n.body[0].value, ast.Constant) and isinstance(n.body[0].value.value, str):
+                n.body = n.body[1:] or [ast.Pass()]
+            if n is not fn:
+                note(n.name)
+    for n in ast.walk(fn):
+        if isinstance(n, ast.arg):
+            note(n.arg)
+        elif isinstance(n, ast.Name) and isinstance(n.ctx, ast.Store):
+            note(n.id)
+    names = {x: f"v{i}" for i, x in enumerate(order)}
+    keep = fn.name
+    fn = _Alpha(names).visit(fn)
+    fn.name = keep
+    fn.decorator_list = []
+    ast.fix_missing_locations(fn)
+    return [l.rstrip() for l in ast.unparse(fn).splitlines() if l.strip()]
 
 
 def translate(src):
@@ -62,11 +169,12 @@ def translate(src):
             raise core.AnchorMissing("get_coordinates: expected two branches '<xyz>.values + <shifts>.values'")
         return found[0]
 
-    cs = A("get_coordinates:x+shift", coords) or [[], []]
+    cs = A("get_coordinates:x+shift", coords) or DOC["coords"]
 
     # --- update_coordinates
     def update():
-        fn = src.find(REL, "Motl.update_coordinates.round_and_recenter")
+        outer = src.find(REL, "Motl.update_coordinates")
+        fn = _inner(outer, "update_coordinates")
         row = fn.args.args[0].arg
         shifted, rounded, resid = {}, [], []
         for st in fn.body:
@@ -91,12 +199,11 @@ def translate(src):
         new_rows = [st.targets[0].id for st in fn.body if isinstance(st, ast.Assign) and _u(st.value) == f"{row}.copy()"]
         if not isinstance(fn.body[-1], ast.Return) or len(new_rows) != 1 or _u(fn.body[-1].value) != new_rows[0]:
             raise core.AnchorMissing("round_and_recenter does not return the new row")
-        outer = src.find(REL, "Motl.update_coordinates")
-        if not any(isinstance(s, ast.Assign) and _u(s) == "self.df=self.df.apply(round_and_recenter,axis=1)" for s in outer.body):
+        if not any(isinstance(s, ast.Assign) and _u(s) == f"self.df=self.df.apply({fn.name},axis=1)" for s in outer.body):
             raise core.AnchorMissing("update_coordinates does not apply round_and_recenter row by row")
         return [rounded, resid]
 
-    up = A("update_coordinates:round_and_recenter", update) or [[], []]
+    up = A("update_coordinates:round_and_recenter", update) or [DOC["rounded"], DOC["resid"]]
 
     # --- scale_coordinates
     def scale():
@@ -114,7 +221,7 @@ def translate(src):
             raise core.AnchorMissing("scale_coordinates: loop body is not 'col *= factor; shift_col *= factor': " + " ; ".join(txt)[:160])
         return [coords_, [m.group(2)]]
 
-    sc = A("scale_coordinates:loop", scale) or [[], [""]]
+    sc = A("scale_coordinates:loop", scale) or DOC["scale"]
 
     # --- Euler conventions: every from_euler / as_euler call in the anchored functions
     def euler_calls():
@@ -132,7 +239,7 @@ def translate(src):
             raise core.AnchorMissing(f"expected 4 from_euler/as_euler calls, found {len(out)}")
         return out
 
-    eu = A("euler-conventions:from_euler/as_euler", euler_calls) or []
+    eu = A("euler-conventions:from_euler/as_euler", euler_calls) or DOC["euler"]
 
     # --- angle column order used to build / store Euler triples
     def angle_cols():
@@ -149,19 +256,21 @@ def translate(src):
         if len(g) != 2:
             raise core.AnchorMissing("get_angles: expected two branches selecting the angle columns")
         out += g
-        fn = src.find(REL, "Motl.shift_positions.shift_coords")
+        fn = _inner(src.find(REL, "Motl.shift_positions"), "shift_positions")
         row = fn.args.args[0].arg
         for n in ast.walk(fn):
-            if isinstance(n, ast.Assign) and _u(n.targets[0]) == "euler_angles":
+            if isinstance(n, ast.Assign):
                 m = re.fullmatch(rf'np\.array\(\[\[{row}\["(\w+)"\],{row}\["(\w+)"\],{row}\["(\w+)"\]\]\]\)', _u(n.value))
-                if not m:
-                    raise core.AnchorMissing("shift_coords: euler_angles is not [[phi, theta, psi]] of the row")
-                out.append(list(m.groups()))
+                if m:
+                    # this array must be what from_euler gets
+                    if not re.search(rf'angles={_u(n.targets[0])}\b', _u(fn)):
+                        raise core.AnchorMissing("shift_coords: the [[phi, theta, psi]] array is not what from_euler gets")
+                    out.append(list(m.groups()))
         if len(out) != 5:
-            raise core.AnchorMissing("shift_coords: euler_angles assignment not found")
+            raise core.AnchorMissing("shift_coords: the Euler triple [[phi, theta, psi]] of the row was not found")
         return out
 
-    ac = A("angle-columns:apply_rotation,get_angles,shift_coords", angle_cols) or []
+    ac = A("angle-columns:apply_rotation,get_angles,shift_coords", angle_cols) or DOC["angle_cols"]
 
     # --- apply_rotation: which side the user's rotation multiplies on
     def rot_side():
@@ -190,15 +299,19 @@ def translate(src):
         raise core.AnchorMissing("apply_rotation: no product '<from_euler angles> * <rotation>'")
 
     side = A("apply_rotation:angles_rot*rotation", rot_side)
+    if side is None:
+        side = DOC["side"]
 
     # --- shift_positions: own orientation applied to the shift, added to the shift columns
     def shift_targets():
-        fn = src.find(REL, "Motl.shift_positions.shift_coords")
+        outer = src.find(REL, "Motl.shift_positions")
+        fn = _inner(outer, "shift_positions")
+        shift_param = outer.args.args[1].arg
         row = fn.args.args[0].arg
         txt = _u(fn)
         m = re.search(r'(\w+)=(\w+)\.apply\((\w+)\)', txt)
         mo = re.search(r'(\w+)=rot\.from_euler\(', txt)
-        mv = re.search(r'(\w+)=np\.array\(shift\)', txt)
+        mv = re.search(rf'(\w+)=np\.array\({shift_param}\)', txt)
         if not (m and mo and mv and m.group(2) == mo.group(1) and m.group(3) == mv.group(1)):
             raise core.AnchorMissing("shift_coords: rshifts = orientations.apply(np.array(shift)) not found")
         rs = m.group(1)
@@ -212,25 +325,30 @@ def translate(src):
                     out.append([mm.group(1), int(mm.group(3))])
         if len(out) != 3:
             raise core.AnchorMissing("shift_coords: expected three 'row[shift_c] = row[shift_c] + rshifts[0][i]'")
+        # both entry points apply it row by row
+        calls = len(re.findall(rf'\.df\.apply\({fn.name},axis=1\)', _u(outer)))
+        if calls != 2:
+            raise core.AnchorMissing(f"shift_positions: expected the row function applied in both branches (inplace / copy), found {calls}")
         return out
 
-    st_ = A("shift_positions:shift+=R.apply(s)", shift_targets) or []
+    st_ = A("shift_positions:shift+=R.apply(s)", shift_targets) or DOC["shift_targets"]
 
     # --- flip_handedness
     def flip():
         fn = src.find(REL, "Motl.flip_handedness")
         neg_theta = any(isinstance(s, ast.Assign) and _u(s) == 'self.df.loc[:,"theta"]=-self.df.loc[:,"theta"]' for s in fn.body)
-        offs, mirrors, negs = [], 0, 0
+        offs, zvars, mirrors, negs = [], set(), 0, 0
         for n in ast.walk(fn):
-            if isinstance(n, ast.Assign) and _u(n.targets[0]) == "z_dim":
+            if isinstance(n, ast.Assign) and isinstance(n.targets[0], ast.Name) and isinstance(n.value, ast.BinOp) and '"z"' in _u(n.value):
                 v = n.value
-                if not (isinstance(v, ast.BinOp) and isinstance(v.op, ast.Add) and isinstance(v.right, ast.Constant) and _u(v.left).startswith("float(dims")
-                        and '"z"' in _u(v.left) and _u(v.left).endswith(".iloc[0])")):
-                    raise core.AnchorMissing("flip_handedness: z_dim is not float(dims[...'z'].iloc[0]) + <const>: " + _u(v)[:100])
+                if not (isinstance(v.op, ast.Add) and isinstance(v.right, ast.Constant) and re.fullmatch(r'float\(\w+(\.loc)?\[.*"z"\]\.iloc\[0\]\)', _u(v.left))):
+                    raise core.AnchorMissing("flip_handedness: the mirror plane is not float(<dims>[...'z'].iloc[0]) + <const>: " + _u(v)[:100])
                 offs.append(v.right.value)
+                zvars.add(n.targets[0].id)
+        for n in ast.walk(fn):
             if isinstance(n, ast.Assign) and isinstance(n.targets[0], ast.Subscript) and _u(n.targets[0].value) == "self.df.loc":
                 tgt, val = _u(n.targets[0]), _u(n.value)
-                if tgt.endswith(',"z"]') and val == "z_dim-" + tgt:
+                if tgt.endswith(',"z"]') and any(val == zv + "-" + tgt for zv in zvars):
                     mirrors += 1
                 if tgt.endswith(',"shift_z"]') and val == "-" + tgt:
                     negs += 1
@@ -238,7 +356,31 @@ def translate(src):
             raise core.AnchorMissing(f"flip_handedness: offsets of the two branches: {offs}")
         return [offs[0], 1 if neg_theta else 0, mirrors, negs]
 
-    fl = A("flip_handedness:theta,z_dim,shift_z", flip) or [0, 0, 0, 0]
+    fl = A("flip_handedness:theta,z_dim,shift_z", flip) or DOC["flip"]
+
+    # --- signatures: parameter names and default values of every function the adapter calls (G1)
+    def signatures():
+        out = []
+        for rel, q in [(REL, "Motl.get_coordinates"), (REL, "Motl.get_angles"), (REL, "Motl.get_rotations"), (REL, "Motl.update_coordinates"),
+                       (REL, "Motl.scale_coordinates"), (REL, "Motl.shift_positions"), (REL, "Motl.apply_rotation"),
+                       (REL, "Motl.flip_handedness"), (IOREL, "dimensions_load")]:
+            fn = src.find(rel, q)
+            a = fn.args
+            if a.vararg or a.kwarg or a.kwonlyargs or a.posonlyargs:
+                raise core.AnchorMissing(f"{q}: unexpected *args/**kwargs/keyword-only parameters")
+            params = [x.arg for x in a.args if x.arg != "self"]
+            defaults = [""] * (len(params) - len(a.defaults)) + [ast.unparse(d) for d in a.defaults]
+            if not params:
+                out.append([q, "", ""])
+            out += [[q, p, d] for p, d in zip(params, defaults)]
+        return out
+
+    sg = A("signatures:parameters-and-defaults", signatures) or DOC["signatures"]
+
+    # --- whole bodies, alpha-normalised (G5): any added / removed / reordered statement is seen, a renamed local is not
+    bodies = {}
+    for lean_name, rel, q in BODIES:
+        bodies[lean_name] = A(f"body:{q}", lambda rel=rel, q=q: alpha_lines(src.find(rel, q)))
 
     def lst(xs):
         return core.lean_str_list(xs)
@@ -246,7 +388,14 @@ def translate(src):
     def tuples(rows):
         return "[" + ", ".join("(" + ", ".join(core.lean_str(str(c)) if isinstance(c, str) else ("true" if c is True else "false" if c is False else str(c)) for c in r) + ")" for r in rows) + "]"
 
-    return f"""-- GENERATED by harness/props/c05.py from {REL}; do not edit
+    def body_def(name):
+        b = bodies[name]
+        if b is None:
+            return f"def {name} : List String := []"
+        return f"def {name} : List String := [\n  " + ",\n  ".join(core.lean_str(l) for l in b) + "]"
+
+    nl = "\n"
+    return f"""-- GENERATED by harness/props/c05.py from {REL} and {IOREL}; do not edit
 namespace CryoCat.Gen.C05
 def anchorsOk : Bool := {"true" if src.ok else "false"}
 /-- get_coordinates: the columns whose values are added -/
@@ -272,6 +421,10 @@ def flipNegatesTheta : Bool := {"true" if fl[1] else "false"}
 /-- number of branches with `z = z_dim - z` / with `shift_z = -shift_z` -/
 def flipMirrorBranches : Nat := {fl[2]}
 def flipShiftBranches : Nat := {fl[3]}
+/-- (function, parameter, default value as written; "" = no default) for every call the adapter makes -/
+def signatures : List (String × String × String) := {tuples(sg)}
+/-! whole function bodies: docstrings dropped, local names replaced by v0, v1, … in order of first binding -/
+{nl.join(body_def(name) for name, _, _ in BODIES)}
 end CryoCat.Gen.C05
 """
 
@@ -310,6 +463,7 @@ def _maxdiff(a, b):
 # ------------------------------------------------------------------ generators
 GRID = 1024.0
 TOMOS = [1.0, 2.0, 3.0, 7.0, 12.0]
+INDEX_KINDS = ["default", "default", "permuted", "offset", "sparse"]
 
 
 def _dy(rng, lo, hi):
@@ -323,6 +477,13 @@ def _coord(rng, grid):
     if k < 0.8 or grid:
         return _dy(rng, -50, 900)
     return rng.uniform(-50, 900)
+
+
+def _nonint_coord(rng, grid):
+    while True:
+        v = _dy(rng, -50, 900) if (grid or rng.random() < 0.6) else rng.uniform(-50, 900)
+        if v != math.floor(v):
+            return v
 
 
 def _shift_val(rng, grid, c):
@@ -359,13 +520,30 @@ def _angle(rng, kind):
     return rng.uniform(-360.0, 720.0)
 
 
-def _rows(rng, n, grid):
+def _rows(rng, n, grid, id_base=0):
+    """n rows of 20 values in Motl.motl_columns order; subtomo ids are distinct (the harness follows a particle by its id)"""
     pool = rng.sample(TOMOS, rng.randint(1, 3))
+    ids = list(range(1, n + 1)) if rng.random() < 0.5 else rng.sample(range(1, 4000), n)
+    zero_shift_list = rng.random() < 0.1  # a freshly picked list: integer-or-not positions, all shifts zero
     rows = []
-    for _ in range(n):
-        c = [_coord(rng, grid) for _ in range(3)]
-        s = [_shift_val(rng, grid, ci) for ci in c]
-        rows.append(c + s + [_angle(rng, "phi"), _angle(rng, "theta"), _angle(rng, "psi"), rng.choice(pool)])
+    for i in range(n):
+        k = rng.random()
+        if k < 0.12 or (zero_shift_list and k < 0.6):  # no residual shift at all but non-integer coordinates
+            c = [_nonint_coord(rng, grid) if rng.random() < 0.8 else _coord(rng, grid) for _ in range(3)]
+            s = [0.0, 0.0, 0.0]
+        elif zero_shift_list:
+            c = [_coord(rng, grid) for _ in range(3)]
+            s = [0.0, 0.0, 0.0]
+        else:
+            c = [_coord(rng, grid) for _ in range(3)]
+            s = [_shift_val(rng, grid, ci) for ci in c]
+        r = dict(score=rng.choice([0.125 * i, round(rng.random(), 4)]), geom1=float(rng.randint(0, 3)), geom2=float(rng.randint(-2, 2)),
+                 subtomo_id=float(ids[i] + id_base), tomo_id=rng.choice(pool), object_id=float(rng.randint(1, 4)),
+                 subtomo_mean=float(rng.randint(0, 1)), x=c[0], y=c[1], z=c[2], shift_x=s[0], shift_y=s[1], shift_z=s[2],
+                 geom3=float(rng.randint(0, 5)), geom4=rng.choice([0.0, 1.5, -2.25]), geom5=float(rng.randint(0, 9)),
+                 phi=_angle(rng, "phi"), psi=_angle(rng, "psi"), theta=_angle(rng, "theta"))
+        r["class"] = float(rng.randint(1, 3))
+        rows.append([r[c_] for c_ in COLS])
     return rows
 
 
@@ -375,34 +553,42 @@ def _gen_Q(rng):
         ang = (0.0, 0.0, 0.0)
     elif k < 0.3:
         ang = tuple(rng.choice([0.0, 90.0, 180.0, -90.0]) for _ in range(3))
+    elif k < 0.42:  # in-plane rotations of either sense
+        ang = (rng.choice([-40.0, 240.0, 270.0, 120.0, -120.0, rng.uniform(-180, 180)]), 0.0, 0.0)
     else:
         ang = (rng.uniform(-180, 180), rng.uniform(0, 180), rng.uniform(-180, 180))
     q = rot_zxz(*ang)
-    return dict(kind="rotate", q=[f2b(v) for r in q for v in r], angles=list(ang))
+    return dict(kind="rotate", q=[f2b(v) for r in q for v in r], angles=list(ang), kw=rng.random() < 0.3)
 
 
-def _gen_dims(rng, rows, grid):
-    tomos = sorted({r[9] for r in rows})
+def _gen_dims(rng, tomos, grid):
     k = rng.random()
     # dimensions are whole numbers of voxels; non-integer ones only where no text file is involved (pandas' default
     # float parser is not correctly rounded, which is no concern of this property)
-    form1 = rng.choice(["list", "array", "df", "file"])
+    form1 = rng.choice(["list", "array", "df", "dfint", "file", "com"])
     formN = rng.choice(["array", "df", "file"])
-    dimz = lambda form: float(rng.randint(100, 2000)) if (grid or form == "file" or rng.random() < 0.8) else rng.uniform(100, 2000)
+    textual = lambda form: form in ("file", "com", "dfint")
+    dimz = lambda form: float(rng.randint(100, 2000)) if (grid or textual(form) or rng.random() < 0.8) else rng.uniform(100, 2000)
+    kw = rng.random() < 0.3
+    if k < 0.4:
+        return dict(kind="flip", dims=dict(single=f2b(dimz(form1))), form=form1, kw=kw)
     if k < 0.45:
-        return dict(kind="flip", dims=dict(single=f2b(dimz(form1))), form=form1)
-    if k < 0.5:
-        return dict(kind="flip", dims=None, form="none")
+        return dict(kind="flip", dims=None, form="none", omit=rng.random() < 0.5, kw=kw)
     present = list(tomos)
     if rng.random() < 0.08 and len(present) > 1:
-        present = present[:-1]  # a tomogram without dimensions: position stays, theta flips (model of the loop)
+        present = present[:-1]  # a tomogram without dimensions: outside the quantifier (model-only comparison)
     extra = [t for t in TOMOS + [20.0, 31.0] if t not in tomos]
     present += rng.sample(extra, rng.randint(0 if present else 1, 2))
     rng.shuffle(present)
-    return dict(kind="flip", dims=dict(table=[[f2b(t), f2b(dimz(formN))] for t in present]), form=formN)
+    table = [[f2b(t), f2b(dimz(formN))] for t in present]
+    if rng.random() < 0.2 and table:  # duplicate rows for a tomogram: the same z size (fine) or two different ones (ambiguous)
+        t, z = rng.choice(table)
+        dup = [t, z if rng.random() < 0.6 else f2b(dimz(formN))]
+        table.insert(rng.randint(0, len(table)), dup)
+    return dict(kind="flip", dims=dict(table=table), form=formN, kw=kw)
 
 
-def _gen_op(rng, rows, grid, kinds):
+def _gen_op(rng, tomos, grid, kinds):
     kind = rng.choice(kinds)
     if kind == "update":
         return dict(kind="update")
@@ -411,7 +597,7 @@ def _gen_op(rng, rows, grid, kinds):
             f = rng.choice([0.5, 2.0, 0.25, 4.0, 1.5, 0.75, 1.0, 3.0, 0.125, 1.25])
         else:
             f = rng.uniform(0.1, 5.0)
-        return dict(kind="scale", f=f2b(f))
+        return dict(kind="scale", f=f2b(f), kw=rng.random() < 0.3)
     if kind == "shift":
         k = rng.random()
         if k < 0.08:
@@ -422,22 +608,28 @@ def _gen_op(rng, rows, grid, kinds):
             v = [0.0, 0.0, 0.0]; v[rng.randrange(3)] = float(rng.randint(-10, 10))
         else:
             v = [rng.gauss(0, 8) for _ in range(3)]
-        return dict(kind="shift", v=[f2b(x) for x in v], inplace=rng.random() < 0.8, as_list=rng.random() < 0.3)
+        # inplace: "omit" = the keyword is left out (library default), True / False = passed explicitly
+        return dict(kind="shift", v=[f2b(x) for x in v], inplace=rng.choice(["omit", "omit", True, False, False]),
+                    form=rng.choice(["array", "array", "list", "tuple"]), kw=rng.random() < 0.3)
     if kind == "rotate":
         return _gen_Q(rng)
-    return _gen_dims(rng, rows, grid)
+    return _gen_dims(rng, tomos, grid)
 
 
 def _combine(a, b):
     """the single operation the property says two successive ones amount to (None for flip,flip = nothing)"""
     if a["kind"] == "shift":
         va, vb = [b2f(x) for x in a["v"]], [b2f(x) for x in b["v"]]
-        return dict(kind="shift", v=[f2b(x + y) for x, y in zip(va, vb)], inplace=True, as_list=False)
+        return dict(kind="shift", v=[f2b(x + y) for x, y in zip(va, vb)], inplace="omit", form="array")
     if a["kind"] == "rotate":
         qa = [[b2f(a["q"][3 * i + j]) for j in range(3)] for i in range(3)]
         qb = [[b2f(b["q"][3 * i + j]) for j in range(3)] for i in range(3)]
         return dict(kind="rotate", q=[f2b(v) for r in _mm(qa, qb) for v in r])
     return None
+
+
+def _tomos_of(rows):
+    return sorted({r[TOMO] for r in rows})
 
 
 def generate(rng, tier, n):
@@ -447,53 +639,111 @@ def generate(rng, tier, n):
         if rng.random() < 0.015:
             nrows = 0  # the empty list is a particle list too
         rows = _rows(rng, nrows, grid)
+        two = rng.random() < 0.15  # G2: a second list in the same process, sharing caller-owned arguments with the first
+        rows2 = _rows(rng, rng.randint(1, 5), grid, id_base=5000) if two else None
+        tomos = sorted(set(_tomos_of(rows) + (_tomos_of(rows2) if two else [])))
         maxops = 6 if (tier != "thorough" or rng.random() < 0.85) else 30
-        compose = rng.random() < 0.4
+        compose = (not two) and rng.random() < 0.4
         nops = rng.randint(0, maxops - 2) if compose else rng.randint(1, maxops)
         kinds = ["update", "scale", "flip", "rotate"] if grid else ["update", "scale", "shift", "rotate", "flip", "shift", "rotate", "flip"]
-        ops = [_gen_op(rng, rows, grid, kinds) for _ in range(nops)]
+        ops = [_gen_op(rng, tomos, grid, kinds) for _ in range(nops)]
+        if rng.random() < 0.08 and not grid:  # the history a freshly picked list really gets: scale by a non-integer factor, then update
+            ops = [dict(kind="scale", f=f2b(rng.choice([1.5, 0.75, 1.25, 2.5]))), dict(kind="update")] + ops[:maxops - 2]
         nscale = 0
         for i, o in enumerate(ops):  # keep the grid cases exactly representable: at most two scalings
             if o["kind"] == "scale":
                 nscale += 1
                 if grid and nscale > 2:
                     ops[i] = dict(kind="update")
-        case = dict(rows=[[f2b(v) for v in r] for r in rows], ops=ops, index=rng.choice(["default", "default", "default", "sparse"]))
+        case = dict(rows=[[f2b(v) for v in r] for r in rows], ops=ops, index=rng.choice(INDEX_KINDS),
+                    reindex=rng.random() < 0.6, bytomo=rng.random() < 0.35)
+        if two:
+            case["rows2"] = [[f2b(v) for v in r] for r in rows2]
+            case["index2"] = rng.choice(INDEX_KINDS)
+            for o in ops:
+                o["on"] = rng.randint(0, 1)
         if compose:  # a composition clause: (shift,shift) (rotate,rotate) (flip,flip) somewhere in the history
             kind = rng.choice(["flip", "rotate"] if grid else ["shift", "rotate", "flip"])
-            a = _gen_op(rng, rows, grid, [kind])
-            b = copy.deepcopy(a) if kind == "flip" else _gen_op(rng, rows, grid, [kind])
+            a = _gen_op(rng, tomos, grid, [kind])
+            b = copy.deepcopy(a) if kind == "flip" else _gen_op(rng, tomos, grid, [kind])
+            if kind == "flip" and rng.random() < 0.6:  # the natural way to flip twice: the very same dimension object / file
+                a["share"] = b["share"] = "twin"
             at = rng.randint(0, len(ops))
             c = _combine(a, b)
             case["ops"] = ops[:at] + [a, b] + ops[at:]
             case["twin"] = dict(at=at, ops=ops[:at] + ([c] if c else []) + ops[at:], clause=kind + "-" + kind)
+        # G2: caller-owned argument objects used by several calls (same object, same file path; sometimes rewritten in between)
+        if rng.random() < (0.6 if two else 0.3):
+            ops_ = case["ops"]
+            by_kind = {}
+            for i, o in enumerate(ops_):
+                if o["kind"] in ("shift", "rotate", "flip") and "share" not in o:
+                    by_kind.setdefault(o["kind"], []).append(i)
+            cands = [k for k, v in by_kind.items() if len(v) >= 1]
+            if cands:
+                k = rng.choice(cands)
+                i = rng.choice(by_kind[k])
+                src_op = ops_[i]
+                src_op["share"] = "s0"
+                twin_ok = "twin" not in case
+                if twin_ok:  # add one more call with the same object (same content, or legitimately rewritten content)
+                    o2 = copy.deepcopy(src_op)
+                    if rng.random() < 0.4 and k != "rotate":
+                        fresh = _gen_op(rng, tomos, grid, [k])
+                        if k == "shift":
+                            o2["v"] = fresh["v"]
+                        elif fresh["dims"] is not None and src_op["dims"] is not None and ("single" in fresh["dims"]) == ("single" in src_op["dims"]):
+                            if not (src_op["form"] in ("file", "com", "dfint") and any(b2f(z) != math.floor(b2f(z)) for z in ([fresh["dims"]["single"]] if "single" in fresh["dims"] else [r[1] for r in fresh["dims"]["table"]]))):
+                                o2["dims"] = fresh["dims"]
+                    if two:
+                        o2["on"] = 1 - src_op.get("on", 0)
+                    ops_.insert(rng.randint(i + 1, len(ops_)), o2)
         yield case
 
 
 def shrink(case):
+    case = _norm_case(case)
     rows, ops = case["rows"], case["ops"]
     base = {k: v for k, v in case.items() if k != "twin"}
     if "twin" in case:
         yield base
+    if "rows2" in case:
+        c = {k: v for k, v in base.items() if k not in ("rows2", "index2")}
+        c["ops"] = [{k: v for k, v in o.items() if k != "on"} for o in ops if o.get("on", 0) == 0]
+        yield c
+        c = {k: v for k, v in base.items() if k not in ("rows2", "index2")}
+        c["rows"] = case["rows2"]; c["index"] = case.get("index2", "default")
+        c["ops"] = [{k: v for k, v in o.items() if k != "on"} for o in ops if o.get("on", 0) == 1]
+        yield c
     if len(rows) > 1:  # rows are independent of the history (and of its twin)
         for i in range(len(rows)):
             yield dict(case, rows=rows[:i] + rows[i + 1:])
     if len(ops) > 1:
         for i in range(len(ops)):
             yield dict(base, ops=ops[:i] + ops[i + 1:])
-    if case.get("index") != "default":
+    if case.get("bytomo"):
+        yield dict(case, bytomo=False)
+    if case.get("reindex"):
+        yield dict(case, reindex=False)
+    if case.get("index", "default") != "default":
         yield dict(case, index="default")
+    for i, o in enumerate(ops):
+        for key in ("share", "kw", "omit"):
+            if o.get(key):
+                yield dict(base, ops=ops[:i] + [{k: v for k, v in o.items() if k != key}] + ops[i + 1:])
     # simpler numbers: integer coordinates, zero shifts, zero angles
     for i, r in enumerate(rows):
         vals = [b2f(b) for b in r]
-        for j in range(9):
-            simple = (float(round(vals[j])) if j < 3 else (0.0 if vals[j] != 0.0 else None))
+        for j in POSE_IDX[:9]:
+            simple = (float(round(vals[j])) if j in (X, Y, Z) else (0.0 if vals[j] != 0.0 else None))
             if simple is not None and simple != vals[j]:
                 nr = list(r); nr[j] = f2b(simple)
                 yield dict(case, rows=rows[:i] + [nr] + rows[i + 1:])
 
 
 def sample_view(case):
+    case = _norm_case(case)
+
     def opv(o):
         v = dict(kind=o["kind"])
         if "f" in o: v["f"] = b2f(o["f"])
@@ -503,98 +753,286 @@ def sample_view(case):
             d = o["dims"]
             v["dims"] = None if d is None else ({"single": b2f(d["single"])} if "single" in d else {"table": [[b2f(a), b2f(b)] for a, b in d["table"]]})
             v["form"] = o.get("form")
+        for k in ("on", "share", "inplace", "kw", "omit"):
+            if k in o: v[k] = o[k]
         return v
-    return dict(rows=[[b2f(b) for b in r] for r in case["rows"]][:4], n_rows=len(case["rows"]), fields=FIELDS,
-                ops=[opv(o) for o in case["ops"]][:8], n_ops=len(case["ops"]), twin=case.get("twin", {}).get("clause"), index=case.get("index"))
+    return dict(rows=[[b2f(b) for b in r] for r in case["rows"]][:3], n_rows=len(case["rows"]), fields=COLS,
+                n_rows2=len(case.get("rows2") or []), ops=[opv(o) for o in case["ops"]][:8], n_ops=len(case["ops"]),
+                twin=case.get("twin", {}).get("clause"), index=case.get("index"), reindex=case.get("reindex"), bytomo=case.get("bytomo"))
+
+
+def _norm_case(case):
+    """cases stored before the hardening pass carry 10 values per row (x y z shifts phi theta psi tomo_id): complete them"""
+    if case.get("rows") and len(case["rows"][0]) == 10:
+        case = dict(case)
+        rows = []
+        for i, r in enumerate(case["rows"]):
+            d = {c: f2b(0.0) for c in COLS}
+            d.update(zip(FIELDS, r))
+            d["subtomo_id"] = f2b(float(i + 1)); d["score"] = f2b(0.125 * i); d["object_id"] = f2b(1.0); d["class"] = f2b(1.0)
+            rows.append([d[c] for c in COLS])
+        case["rows"] = rows
+        ops = []
+        for o in case["ops"]:
+            o = dict(o)
+            if o["kind"] == "shift":
+                if "form" not in o:
+                    o["form"] = "list" if o.pop("as_list", False) else "array"
+                if isinstance(o.get("inplace", True), bool) and o.get("inplace", True) is True:
+                    o["inplace"] = "omit"
+            ops.append(o)
+        case["ops"] = ops
+        if case.get("index") == "sparse":
+            case["reindex"] = case.get("reindex", False)
+        if "twin" in case:
+            case["twin"] = dict(case["twin"], ops=[dict(o, inplace="omit") if o["kind"] == "shift" and o.get("inplace") is True else o for o in case["twin"]["ops"]])
+    return case
 
 
 # ------------------------------------------------------------------ implementation
-def _dims_obj(op, td):
-    import numpy as np, pandas as pd, os
-    d, form = op["dims"], op.get("form", "array")
+def _dims_content(op):
+    d = op["dims"]
     if d is None:
         return None
     if "single" in d:
-        arr = [512.0, 480.0, b2f(d["single"])]
-        if form == "list":
-            return arr
-        if form == "df":
-            return pd.DataFrame([arr])
-        if form == "file":
-            p = os.path.join(td, "dims1.txt")
-            with open(p, "w") as f:
-                f.write(" ".join(repr(v) for v in arr) + "\n")
-            return p
-        return np.array(arr)
-    tab = [[b2f(t), 512.0, 480.0, b2f(z)] for t, z in d["table"]]
-    if form == "df":
-        return pd.DataFrame(tab)
-    if form == "file":
-        p = os.path.join(td, "dimsN.txt")
-        with open(p, "w") as f:
+        return [[512.0, 480.0, b2f(d["single"])]]
+    return [[b2f(t), 512.0, 480.0, b2f(z)] for t, z in d["table"]]
+
+
+def _write_dims(path, tab, com):
+    with open(path, "w") as f:
+        if com:
+            f.write("# Command file to run Tilt\n$tilt -StandardInput\nInputProjections ts.ali\nOutputFile ts.rec\n")
+            f.write(f"FULLIMAGE {int(tab[0][0])} {int(tab[0][1])}\nTHICKNESS {int(tab[0][2])}\nRADIAL 0.35 0.035\n$if (-e ./savework) ./savework\n")
+        else:
             for r in tab:
                 f.write(" ".join(repr(v) for v in r) + "\n")
-        return p
-    return np.array(tab)
 
 
-def _run_history(rows, ops, index, td):
-    import numpy as np, pandas as pd, warnings
-    from cryocat import cryomotl
+def _arg_snapshot(obj):
+    """content of a caller-owned argument, for the before/after comparison (DataFrame: values and shape, not the labels)"""
+    import numpy as np, pandas as pd
     from scipy.spatial.transform import Rotation
-    n = len(rows)
-    data = {c: [0.0] * n for c in cryomotl.Motl.motl_columns}
-    for i, r in enumerate(rows):
-        for name, b in zip(FIELDS, r):
-            data[name][i] = b2f(b)
-        data["subtomo_id"][i] = float(i + 1)
-        data["score"][i] = 0.125 * i
-        data["object_id"][i] = 1.0
-        data["class"][i] = 1.0
-    df = pd.DataFrame(data, columns=cryomotl.Motl.motl_columns, dtype=float)
-    if index == "sparse":
-        df.index = [3 * i + 2 for i in reversed(range(n))]
-    m = cryomotl.Motl(df)
+    if obj is None:
+        return None
+    if isinstance(obj, str):
+        return ["file", open(obj, "rb").read().decode("latin1")]
+    if isinstance(obj, pd.DataFrame):
+        return ["df", list(obj.shape), [str(t) for t in obj.dtypes], [[f2b(float(v)) for v in r] for r in obj.to_numpy().tolist()]]
+    if isinstance(obj, np.ndarray):
+        return ["array", list(obj.shape), str(obj.dtype), [f2b(float(v)) for v in obj.ravel().tolist()]]
+    if isinstance(obj, Rotation):
+        return ["rotation", [f2b(float(v)) for v in obj.as_matrix().ravel().tolist()]]
+    if isinstance(obj, (list, tuple)):
+        return [type(obj).__name__, [f2b(float(v)) for v in obj]]
+    return ["other", repr(obj)[:80]]
 
-    def snap():
-        return dict(rows=[[f2b(v) for v in r] for r in m.df[FIELDS].to_numpy(dtype=float).tolist()],
-                    coords=[[f2b(v) for v in r] for r in np.asarray(m.get_coordinates(), dtype=float).tolist()],
-                    angles=[[f2b(v) for v in r] for r in np.asarray(m.get_angles(), dtype=float).tolist()],
-                    ids=[int(v) for v in m.df["subtomo_id"].tolist()])
 
-    states = [snap()]
+def _make_arg(op, idx, shared, td):
+    """the argument object of the call; ops with the same `share` key get the SAME python object / file path (if the content
+    differs the caller rewrites its own object / file in place before the call, which is legitimate)"""
+    import numpy as np, pandas as pd, os
+    from scipy.spatial.transform import Rotation
+    k, key = op["kind"], op.get("share")
+    have = shared.get(key) if key else None
+    if k == "shift":
+        v = [b2f(x) for x in op["v"]]
+        form = op.get("form", "array")
+        if isinstance(have, tuple) and list(have) == v:
+            obj = have
+        elif have is not None and not isinstance(have, tuple):
+            if isinstance(have, np.ndarray):
+                have[:] = v
+            else:
+                have[:] = v
+            obj = have
+        else:
+            obj = np.array(v) if form == "array" else (list(v) if form == "list" else tuple(v))
+    elif k == "rotate":
+        obj = have if have is not None else Rotation.from_matrix(np.array([b2f(x) for x in op["q"]]).reshape(3, 3))
+    elif k == "flip":
+        tab, form = _dims_content(op), op.get("form", "array")
+        if tab is None:
+            obj = None
+        elif form in ("file", "com"):
+            obj = have if have is not None else os.path.join(td, f"dims_{key or idx}" + (".com" if form == "com" else ".txt"))
+            _write_dims(obj, tab, form == "com")
+        elif have is not None and isinstance(have, pd.DataFrame) and have.shape == (len(tab), len(tab[0])):
+            have.iloc[:, :] = np.array(tab, dtype=have.to_numpy().dtype)
+            obj = have
+        elif have is not None and isinstance(have, np.ndarray) and have.size == len(tab) * len(tab[0]):
+            have[...] = np.array(tab).reshape(have.shape)
+            obj = have
+        elif have is not None and isinstance(have, list) and len(tab) == 1:
+            have[:] = tab[0]
+            obj = have
+        elif form == "list":
+            obj = list(tab[0])
+        elif form == "df":
+            obj = pd.DataFrame(tab)
+        elif form == "dfint":
+            obj = pd.DataFrame([[int(v) for v in r] for r in tab])
+        else:
+            obj = np.array(tab[0]) if len(tab[0]) == 3 else np.array(tab)
+    else:
+        obj = None
+    if key and obj is not None:
+        shared[key] = obj
+    return obj
+
+
+def _cell(v):
+    import numpy as np
+    if isinstance(v, (bool, np.bool_)):
+        return {"t": repr(v), "k": "bool"}
+    if isinstance(v, (int, np.integer)):
+        return f2b(float(v)) if abs(int(v)) < 2 ** 53 else {"t": repr(v), "k": "bigint"}
+    if isinstance(v, (float, np.floating)):
+        return f2b(float(v))
+    return {"t": repr(v)[:60], "k": type(v).__name__}
+
+
+def _arr(a):
+    import numpy as np
+    a = np.asarray(a)
+    out = dict(dtype=str(a.dtype), shape=list(a.shape))
+    out["v"] = [[_cell(v) for v in r] for r in a.tolist()] if a.ndim == 2 else [[_cell(v) for v in a.ravel().tolist()]]
+    return out
+
+
+def _snap(m, tomos, bytomo):
+    """what the library holds / reports, with its types: column names and dtypes, every cell of the 20 fields (numbers as bit
+    patterns, anything else as text), get_coordinates() / get_angles() with their dtype, optionally per tomogram"""
+    df = m.df
+    cols = [str(c) for c in df.columns]
+    out = dict(cols=cols if cols != COLS else "motl_columns", dtypes=[str(t) for t in df.dtypes])
+    if not all(c in cols for c in COLS) or len(set(cols)) != len(cols):
+        out["bad"] = True
+        return out
+    out["cells"] = [[_cell(v) for v in r] for r in df[COLS].itertuples(index=False, name=None)]
+
+    def observer(fn):  # an observer that raises is an observation too (the table itself is still recorded above)
+        try:
+            return _arr(fn())
+        except Exception as e:
+            where, inside = _where(e)
+            return dict(raised=f"{type(e).__name__}: {str(e)[:200]}", where=where, in_cryocat=inside, dtype="?", shape=[], v=[])
+
+    out["coords"] = observer(lambda: m.get_coordinates())
+    out["angles"] = observer(lambda: m.get_angles(tomo_number=None))
+    if bytomo and len(df) > 0 and "raised" not in out["coords"] and "raised" not in out["angles"]:
+        out["bytomo"] = [dict(t=f2b(t), coords=observer(lambda: m.get_coordinates(t)), angles=observer(lambda: m.get_angles(tomo_number=t))) for t in tomos]
+        try:
+            rots = m.get_rotations()
+            out["rots"] = [[f2b(float(v)) for v in r] for r in rots.as_matrix().reshape(-1, 9).tolist()]
+        except Exception:
+            pass
+    return out
+
+
+def _index_labels(kind, n):
+    if kind == "permuted":
+        return [(5 * i + 3) % n for i in range(n)] if n % 5 else [(3 * i + 1) % n for i in range(n)] if n % 3 else list(reversed(range(n)))
+    if kind == "offset":
+        return [10 + i for i in range(n)]
+    if kind == "sparse":
+        return [3 * i + 2 for i in reversed(range(n))]
+    return None
+
+
+def _build(rows, index):
+    import pandas as pd
+    from cryocat import cryomotl
+    data = {c: [b2f(r[j]) for r in rows] for j, c in enumerate(COLS)}
+    df = pd.DataFrame(data, columns=COLS, dtype=float)
+    lab = _index_labels(index, len(rows))
+    if lab is not None:
+        df.index = lab
+    return cryomotl.Motl(df)
+
+
+def _where(e):
+    import traceback, os
+    tb = traceback.extract_tb(e.__traceback__)
+    frames = [fr for fr in tb if "/cryocat/" in fr.filename.replace("\\", "/")]
+    return (f"{os.path.basename(frames[-1].filename)}:{frames[-1].lineno}" if frames else ""), bool(frames)
+
+
+def _run_history(case, ops, td):
+    import numpy as np, warnings
+    from cryocat import cryomotl
+    lists = [case["rows"]] + ([case["rows2"]] if case.get("rows2") else [])
+    kinds = [case.get("index", "default"), case.get("index2", "default")]
+    tomos = [sorted({b2f(r[TOMO]) for r in rows}) for rows in lists]
+    ms = [_build(rows, kinds[j]) for j, rows in enumerate(lists)]
+    bytomo = bool(case.get("bytomo"))
+    snap_all = lambda: [_snap(m, tomos[j], bytomo) for j, m in enumerate(ms)]
+    shared, steps = {}, []
+    out = dict(initial=snap_all(), steps=steps, motl_columns_ok=(list(cryomotl.Motl.motl_columns) == COLS))
     with warnings.catch_warnings():
         warnings.simplefilter("ignore")
-        for op in ops:
-            k = op["kind"]
-            if k == "update":
-                m.update_coordinates()
-            elif k == "scale":
-                m.scale_coordinates(b2f(op["f"]))
-            elif k == "shift":
-                v = [b2f(x) for x in op["v"]]
-                v = v if op.get("as_list") else np.array(v)
-                if op.get("inplace", True):
-                    m.shift_positions(v)
+        for i, op in enumerate(ops):
+            k, L = op["kind"], op.get("on", 0)
+            if case.get("reindex"):  # the caller re-labels its own table: every operation meets the non-default index
+                for j, m in enumerate(ms):
+                    lab = _index_labels(kinds[j], len(m.df))
+                    if lab is not None and len(m.df) == len(lists[j]):
+                        m.df.index = lab
+            rec = dict(before=snap_all())
+            steps.append(rec)
+            try:
+                arg = _make_arg(op, i, shared, td)
+                a0 = _arg_snapshot(arg)
+                m, old = ms[L], None
+                kw = bool(op.get("kw"))
+                if k == "update":
+                    m.update_coordinates()
+                elif k == "scale":
+                    m.scale_coordinates(scaling_factor=b2f(op["f"])) if kw else m.scale_coordinates(b2f(op["f"]))
+                elif k == "shift":
+                    ip = op.get("inplace", "omit")
+                    args, kwargs = ((), dict(shift=arg)) if kw else ((arg,), {})
+                    if ip != "omit":
+                        kwargs["inplace"] = bool(ip)
+                    ret = m.shift_positions(*args, **kwargs)
+                    if ip is False:
+                        old, ms[L] = m, ret
+                        rec["original_after"] = _snap(old, tomos[L], False)
+                    elif ret is not None:
+                        rec["returned"] = type(ret).__name__
+                elif k == "rotate":
+                    m.apply_rotation(rotation=arg) if kw else m.apply_rotation(arg)
+                elif k == "flip":
+                    if arg is None and op.get("omit"):
+                        m.flip_handedness()
+                    elif kw:
+                        m.flip_handedness(tomo_dimensions=arg)
+                    else:
+                        m.flip_handedness(arg)
                 else:
-                    m = m.shift_positions(v, inplace=False)
-            elif k == "rotate":
-                q = np.array([b2f(x) for x in op["q"]]).reshape(3, 3)
-                m.apply_rotation(Rotation.from_matrix(q))
-            elif k == "flip":
-                m.flip_handedness(_dims_obj(op, td))
-            else:
-                raise ValueError("unknown op " + k)
-            states.append(snap())
-    return states
+                    raise ValueError("unknown op " + k)
+                a1 = _arg_snapshot(arg)
+                if a0 != a1:
+                    rec["arg_changed"] = dict(before=a0, after=a1)
+                rec["after"] = snap_all()
+            except Exception as e:
+                where, inside = _where(e)
+                rec["raised"] = dict(error=f"{type(e).__name__}: {str(e)[:300]}", where=where, in_cryocat=inside)
+                break
+    return out
 
 
 def run_impl(case):
     import tempfile
+    case = _norm_case(case)
     with tempfile.TemporaryDirectory(prefix="c05_") as td:
-        out = dict(states=_run_history(case["rows"], case["ops"], case.get("index", "default"), td))
+        out = _run_history(case, case["ops"], td)
         if "twin" in case:
-            out["twin_final"] = _run_history(case["rows"], case["twin"]["ops"], case.get("index", "default"), td)[-1]
+            tw = _run_history(dict(case, bytomo=False), case["twin"]["ops"], td)
+            if tw["steps"] and "raised" in tw["steps"][-1]:
+                out["twin_raised"] = tw["steps"][-1]["raised"]
+            else:
+                out["twin_final"] = (tw["steps"][-1]["after"] if tw["steps"] else tw["initial"])[0]
     return out
 
 
@@ -615,25 +1053,48 @@ def _exact(x):
         return False
 
 
-def _dz_of(op, tomo_bits):
+def _spec_dz(op, tomo_bits):
+    """the z size the STATEMENT uses for a particle of this tomogram (python mirror of Lean `specDim`): None when no dimensions
+    are given, the table has no row for the tomogram, or its rows for it disagree -> the call is outside the quantifier"""
     d = op["dims"]
     if d is None:
         return None
     if "single" in d:
         return d["single"]
-    for t, z in d["table"]:
-        if b2f(t) == b2f(tomo_bits):
-            return z
-    return None
+    zs = [z for t, z in d["table"] if b2f(t) == b2f(tomo_bits)]
+    if not zs or any(b2f(z) != b2f(zs[0]) for z in zs):
+        return None
+    return zs[0]
+
+
+def _usable(S):
+    """every cell is a number and every pose field is finite (so that the state can be sent to the model)"""
+    if S.get("bad"):
+        return False
+    for r in S["cells"]:
+        if any(isinstance(c, dict) for c in r):
+            return False
+        if any(not math.isfinite(b2f(r[j])) for j in POSE_IDX):
+            return False
+    for name in ("coords", "angles"):
+        if "raised" in S[name] or any(isinstance(c, dict) or not math.isfinite(b2f(c)) for r in S[name]["v"] for c in r):
+            return False
+    return True
+
+
+def _p10(r):
+    """x y z shift_x shift_y shift_z phi theta psi tomo_id of a 20-cell row"""
+    return [r[j] for j in POSE_IDX]
 
 
 def _step_exact(op, before, after):
     """every intermediate of this step (and the complete positions before and after) is exactly representable,
     so float arithmetic = rational arithmetic and the exact Lean checker applies"""
     k = op["kind"]
-    if k not in ("update", "scale", "flip"):
+    if k not in ("update", "scale", "flip") or len(before["cells"]) != len(after["cells"]):
         return False
-    for rb, ra in zip(before["rows"], after["rows"]):
+    for rb20, ra20 in zip(before["cells"], after["cells"]):
+        rb, ra = _p10(rb20), _p10(ra20)
         for j in range(3):
             x, s = _fr(rb[j]), _fr(rb[j + 3])
             if not _exact(x + s) or not _exact(_fr(ra[j]) + _fr(ra[j + 3])):
@@ -643,22 +1104,52 @@ def _step_exact(op, before, after):
                 if not (_exact(x * f) and _exact(s * f) and _exact((x + s) * f)):
                     return False
         if k == "flip":
-            dz = _dz_of(op, rb[9])
+            dz = _spec_dz(op, rb[9])
             if dz is not None and not (_exact(_fr(dz) + 1) and _exact(_fr(dz) + 1 - _fr(rb[2])) and _exact(_fr(dz) + 1 - _fr(rb[2]) - _fr(rb[5]))):
                 return False
     return True
 
 
+def _plan(case, obs):
+    """which driver requests are made for this observation: per executed step whose before/after states of the target list
+    are usable a `step` (+ `check` when exact); per list whose whole history is usable a `history`"""
+    plan = []
+    nl = 2 if case.get("rows2") else 1
+    ok = [True] * nl
+    for i, rec in enumerate(obs["steps"]):
+        op = case["ops"][i]
+        L = op.get("on", 0)
+        if "after" not in rec:
+            ok = [False] * nl
+            break
+        B, A = rec["before"][L], rec["after"][L]
+        if not (ok[L] and _usable(B) and _usable(A) and len(B["cells"]) == len(A["cells"])):
+            ok[L] = False
+            continue
+        plan.append(("step", i, L))
+        if _step_exact(op, B, A):
+            plan.append(("check", i, L))
+    for L in range(nl):
+        if ok[L] and len(obs["steps"]) == len(case["ops"]) and _usable(obs["initial"][L]):
+            plan.append(("history", None, L))
+    return plan
+
+
 def requests(case, obs):
+    case = _norm_case(case)
     if "error" in obs:
         return []
     reqs = []
-    st = obs["states"]
-    for i, op in enumerate(case["ops"]):
-        reqs.append(dict(op="step", rows=st[i]["rows"], **_wire_op(op)))
-        if _step_exact(op, st[i], st[i + 1]):
-            reqs.append(dict(op="check", before=st[i]["rows"], after=st[i + 1]["rows"], **_wire_op(op)))
-    reqs.append(dict(op="history", rows=case["rows"], ops=[_wire_op(o) for o in case["ops"]]))
+    for what, i, L in _plan(case, obs):
+        if what == "history":
+            rows = case["rows2"] if L == 1 else case["rows"]
+            reqs.append(dict(op="history", rows=rows, ops=[_wire_op(o) for o in case["ops"] if o.get("on", 0) == L]))
+        else:
+            rec, op = obs["steps"][i], case["ops"][i]
+            if what == "step":
+                reqs.append(dict(op="step", rows=rec["before"][L]["cells"], **_wire_op(op)))
+            else:
+                reqs.append(dict(op="check", before=rec["before"][L]["cells"], after=rec["after"][L]["cells"], **_wire_op(op)))
     return reqs
 
 
@@ -680,182 +1171,385 @@ def _close(a, b, scale):
     return abs(a - b) <= TOL * (1.0 + scale)
 
 
-def judge(case, obs, resps):
+def _state_findings(S, tag, case, L):
+    """findings about one snapshot on its own: columns, text cells (G3), non-finite pose fields, observables = table"""
     out = []
-    if "error" in obs:
-        return [dict(kind="spec", clause="raises", detail=obs["error"] + " @" + obs.get("where", ""))]
-    st = obs["states"]
-    n = len(case["rows"])
-    ri = 0
-    dev = dict(pos=0.0, R=0.0, resid=0.0)
-    for i, op in enumerate(case["ops"]):
-        k = op["kind"]
-        B, A = st[i], st[i + 1]
-        step = resps[ri]; ri += 1
-        chk = None
-        if _step_exact(op, B, A):
-            chk = resps[ri]; ri += 1
-        tag = f"op {i} ({k})"
-        if len(A["rows"]) != n or A["ids"] != B["ids"]:
-            out.append(dict(kind="spec", clause="particles-kept-in-order", detail=f"{tag}: ids {B['ids']} -> {A['ids']}"))
-            return out
-        rb, ra = _vals(B["rows"]), _vals(A["rows"])
-        cb, ca = _vals(B["coords"]), _vals(A["coords"])
-        ab, aa = _vals(B["angles"]), _vals(A["angles"])
+    if S.get("bad"):
+        return [dict(kind="corr", clause="table-columns-changed", detail=f"{tag}: columns {S['cols']}")]
+    for p, r in enumerate(S["cells"]):
+        for j, c in enumerate(r):
+            if isinstance(c, dict):
+                out.append(dict(kind="spec", clause="numeric-field-came-back-as-text", detail=f"{tag} particle {p}: field {COLS[j]} is {c['t']} ({c['k']}); column dtypes {dict(zip(COLS, S['dtypes']))[COLS[j]] if len(S['dtypes']) == 20 else S['dtypes']}"))
+            elif j in POSE_IDX and not math.isfinite(b2f(c)):
+                out.append(dict(kind="spec", clause="non-finite-pose-field", detail=f"{tag} particle {p}: field {COLS[j]} = {b2f(c)}"))
+    for name in ("coords", "angles"):
+        o = S[name]
+        if "raised" in o:
+            out.append(dict(kind="spec" if o["in_cryocat"] else "corr", clause="observer-raises" if o["in_cryocat"] else "harness-or-library-raised",
+                            detail=f"{tag}: get_{'coordinates' if name == 'coords' else 'angles'}() raised {o['raised']} @{o['where']}; column dtypes {S['dtypes']}"))
+        elif any(isinstance(c, dict) for r in o["v"] for c in r) or o["dtype"] == "object":
+            out.append(dict(kind="spec", clause="numeric-field-came-back-as-text", detail=f"{tag}: get_{'coordinates' if name == 'coords' else 'angles'}() has dtype {o['dtype']}"))
+    if out:
+        return out
+    n = len(S["cells"])
+    rows = _vals(S["cells"])
+    co, an = _vals(S["coords"]["v"]), _vals(S["angles"]["v"])
+    if n and (len(co) != n or len(an) != n or any(len(r) != 3 for r in co + an)):
+        return [dict(kind="spec", clause="complete-position-is-x-plus-shift", detail=f"{tag}: get_coordinates shape {S['coords']['shape']}, get_angles shape {S['angles']['shape']} for {n} particles")]
+    for p in range(n):
+        r = rows[p]
+        want = [r[X] + r[SX], r[Y] + r[SY], r[Z] + r[SZ]]
+        if co[p] != want or an[p] != [r[PHI], r[THETA], r[PSI]]:
+            out.append(dict(kind="spec", clause="complete-position-is-x-plus-shift", detail=f"{tag} particle {p}: get_coordinates {co[p]} vs x+shift {want}; get_angles {an[p]} vs phi,theta,psi {[r[PHI], r[THETA], r[PSI]]}"))
+    for bt in S.get("bytomo", []):
+        t = b2f(bt["t"])
+        sel = [r for r in rows if r[TOMO] == t]
+        want_c = [[r[X] + r[SX], r[Y] + r[SY], r[Z] + r[SZ]] for r in sel]
+        want_a = [[r[PHI], r[THETA], r[PSI]] for r in sel]
+        got_c, got_a = bt["coords"]["v"], bt["angles"]["v"]
+        if "raised" in bt["coords"] or "raised" in bt["angles"]:
+            o = bt["coords"] if "raised" in bt["coords"] else bt["angles"]
+            out.append(dict(kind="spec" if o["in_cryocat"] else "corr", clause="observer-raises" if o["in_cryocat"] else "harness-or-library-raised", detail=f"{tag}: get_coordinates({t}) / get_angles({t}) raised {o['raised']} @{o['where']}"))
+            continue
+        bad_cell = any(isinstance(c, dict) for r in got_c + got_a for c in r)
+        if bad_cell or (sel and (_vals(got_c) != want_c or _vals(got_a) != want_a)):
+            out.append(dict(kind="spec", clause="complete-position-is-x-plus-shift", detail=f"{tag}: get_coordinates({t}) / get_angles({t}) = {got_c if bad_cell else _vals(got_c)} / {got_a if bad_cell else _vals(got_a)}; the table gives {want_c} / {want_a}"))
+    if "rots" in S:
         for p in range(n):
-            # the observables agree with the table: get_coordinates = x + shift, get_angles = phi theta psi
-            if any(ca[p][j] != ra[p][j] + ra[p][j + 3] for j in range(3)) or aa[p] != ra[p][6:9]:
-                out.append(dict(kind="spec", clause="complete-position-is-x-plus-shift", detail=f"{tag} particle {p}: get_coordinates {ca[p]} vs fields {ra[p][:6]}; get_angles {aa[p]} vs {ra[p][6:9]}"))
-            Rb, Ra = _R(ab[p]), _R(aa[p])
-            mag = max(abs(v) for v in ra[p][:6] + rb[p][:6])
+            got = [[b2f(S["rots"][p][3 * a + b]) for b in range(3)] for a in range(3)]
+            if _maxdiff(got, _R([rows[p][PHI], rows[p][THETA], rows[p][PSI]])) > TOL:
+                out.append(dict(kind="corr", clause="get_rotations-vs-elementary-rotations", detail=f"{tag} particle {p}: get_rotations() differs from Rz(psi)Rx(theta)Rz(phi) by {_maxdiff(got, _R([rows[p][PHI], rows[p][THETA], rows[p][PSI]])):.3g}"))
+    return out
+
+
+def _arg_view(a):
+    """readable form of an `_arg_snapshot` (bit patterns decoded)"""
+    def dec(x):
+        if isinstance(x, list):
+            return [dec(y) for y in x]
+        return b2f(x) if isinstance(x, int) and not isinstance(x, bool) else x
+    if not a:
+        return a
+    if a[0] == "file":
+        return f"file {a[1]!r}"
+    if a[0] == "df":
+        return f"DataFrame{tuple(a[1])} {dec(a[3])}"
+    if a[0] == "array":
+        return f"ndarray{tuple(a[1])} {a[2]} {dec(a[3])}"
+    return f"{a[0]} {dec(a[1])}"
+
+
+def _same_state(S1, S2):
+    return S1.get("cells") == S2.get("cells") and S1.get("cols") == S2.get("cols")
+
+
+def judge(case, obs, resps):
+    case = _norm_case(case)
+    out = []
+    if "error" in obs:  # raised outside the per-operation guard (building the list, first snapshot)
+        inside = bool(obs.get("where"))
+        return [dict(kind="spec" if inside else "corr", clause="raises" if inside else "harness-or-library-raised", detail=obs["error"] + " @" + obs.get("where", ""))]
+    if not obs.get("motl_columns_ok", True):
+        out.append(dict(kind="corr", clause="motl-columns-differ-from-the-model", detail="Motl.motl_columns is not the documented 20-field order"))
+    plan = _plan(case, obs)
+    rmap = {(w, i, L): r for (w, i, L), r in zip(plan, resps)}
+    nl = 2 if case.get("rows2") else 1
+    dev = dict(pos=0.0, R=0.0, resid=0.0)
+    flags = dict(angle_bits_changed=0, strict_flip_only_pos=0, dtypes=set())
+    alive = [True] * nl
+    for L in range(nl):
+        f = _state_findings(obs["initial"][L], f"initial list {L}", case, L)
+        if f:  # the harness's own input came back wrong from the constructor / observers
+            out += [dict(g, kind="corr") if g["clause"] != "complete-position-is-x-plus-shift" else g for g in f]
+            alive[L] = alive[L] and _usable(obs["initial"][L])
+    prev = list(obs["initial"])
+    for i, rec in enumerate(obs["steps"]):
+        op = case["ops"][i]
+        k, L = op["kind"], op.get("on", 0)
+        tag = f"op {i} ({k}" + (f" on list {L})" if nl > 1 else ")")
+        # G2: nothing may have changed since the previous call returned
+        for j in range(nl):
+            if alive[j] and not _same_state(prev[j], rec["before"][j]):
+                out.append(dict(kind="spec", clause="list-changed-between-operations", detail=f"{tag}: list {j} differs from what the previous call left: {_vals(prev[j].get('cells', []))[:2]} -> {_vals(rec['before'][j].get('cells', []))[:2]}"))
+        if "raised" in rec:
+            r = rec["raised"]
+            outside = k == "flip" and all(_spec_dz(op, row[TOMO]) is None for row in rec["before"][L].get("cells", []))
+            if not r["in_cryocat"]:
+                out.append(dict(kind="corr", clause="harness-or-library-raised", detail=f"{tag}: {r['error']} (no frame inside cryocat)"))
+            elif outside:
+                out.append(dict(kind="corr", clause="raises-outside-the-quantifier", detail=f"{tag}: {r['error']} @{r['where']}"))
+            else:
+                out.append(dict(kind="spec", clause="raises", detail=f"{tag}: {r['error']} @{r['where']}"))
+            break
+        B, A = rec["before"][L], rec["after"][L]
+        prev = list(rec["after"])
+        for j in range(nl):  # an operation on one list must leave the other list alone
+            if j != L and alive[j] and not _same_state(rec["before"][j], rec["after"][j]):
+                out.append(dict(kind="spec", clause="operation-changed-another-list", detail=f"{tag}: list {j} changed"))
+        if "arg_changed" in rec:
+            out.append(dict(kind="spec", clause="caller-owned-argument-modified", detail=f"{tag}: the caller's argument object was {_arg_view(rec['arg_changed']['before'])} before the call and {_arg_view(rec['arg_changed']['after'])} after it"))
+        if "original_after" in rec and not _same_state(rec["original_after"], B):
+            out.append(dict(kind="spec", clause="inplace-false-modified-the-original", detail=f"{tag}: the list the method was called on changed although inplace=False"))
+        if "returned" in rec:
+            out.append(dict(kind="corr", clause="inplace-call-returned-an-object", detail=f"{tag}: returned {rec['returned']}"))
+        if not alive[L]:
+            continue
+        sf = _state_findings(A, tag, case, L)
+        out += sf
+        flags["dtypes"].update(A.get("dtypes", []))
+        if not _usable(A) or not _usable(B):
+            alive[L] = False
+            continue
+        n = len(B["cells"])
+        if len(A["cells"]) != n:
+            out.append(dict(kind="spec", clause="particle-lost-or-added", detail=f"{tag}: {n} particles before, {len(A['cells'])} after"))
+            alive[L] = False
+            continue
+        rb20, ra20 = _vals(B["cells"]), _vals(A["cells"])
+        ids_b, ids_a = [r[ID] for r in rb20], [r[ID] for r in ra20]
+        perm = list(range(n))
+        if ids_a != ids_b and sorted(ids_a) == sorted(ids_b) and len(set(ids_b)) == n:
+            perm = [ids_a.index(v) for v in ids_b]
+            out.append(dict(kind="corr", clause="row-order-vs-model", detail=f"{tag}: subtomo ids {ids_b} -> {ids_a} (the model keeps the order)"))
+        ra20 = [ra20[j] for j in perm]
+        co_b, co_a = _vals(B["coords"]["v"]), [_vals(A["coords"]["v"])[j] for j in perm] if n else []
+        step, chk = rmap.get(("step", i, L)), rmap.get(("check", i, L))
+        for p in range(n):
+            rb, ra = _p10(rb20[p]), _p10(ra20[p])
+            cb, ca = co_b[p], co_a[p]
+            ab, aa = rb[6:9], ra[6:9]
+            Rb, Ra = _R(ab), _R(aa)
+            mag = max(abs(v) for v in ra[:6] + rb[:6])
+            dR_same = _maxdiff(Ra, Rb)
+            if k != "rotate" and k != "flip" and aa != ab:
+                flags["angle_bits_changed"] += 1
             if k == "update":
-                if ca[p] != cb[p]:
-                    out.append(dict(kind="spec", clause="update-keeps-complete-position", detail=f"{tag} particle {p}: {cb[p]} -> {ca[p]}"))
-                if any(ra[p][j] != math.floor(ra[p][j]) for j in range(3)):
-                    out.append(dict(kind="spec", clause="update-makes-xyz-integers", detail=f"{tag} particle {p}: x,y,z = {ra[p][:3]}"))
-                if any(abs(ra[p][j]) > 0.5 for j in (3, 4, 5)):
-                    out.append(dict(kind="spec", clause="update-shift-at-most-half", detail=f"{tag} particle {p}: shifts = {ra[p][3:6]}"))
-                if aa[p] != ab[p]:
-                    out.append(dict(kind="spec", clause="update-keeps-orientation", detail=f"{tag} particle {p}: angles {ab[p]} -> {aa[p]}"))
+                if ca != cb:
+                    out.append(dict(kind="spec", clause="update-keeps-complete-position", detail=f"{tag} particle {p}: {cb} -> {ca}"))
+                if any(ra[j] != math.floor(ra[j]) for j in range(3)):
+                    out.append(dict(kind="spec", clause="update-makes-xyz-integers", detail=f"{tag} particle {p}: x,y,z = {ra[:3]} (before: x,y,z {rb[:3]}, shifts {rb[3:6]})"))
+                if any(abs(ra[j]) > 0.5 for j in (3, 4, 5)):
+                    out.append(dict(kind="spec", clause="update-shift-at-most-half", detail=f"{tag} particle {p}: shifts = {ra[3:6]}"))
+                if dR_same > TOL:
+                    out.append(dict(kind="spec", clause="update-keeps-orientation", detail=f"{tag} particle {p}: angles {ab} -> {aa}, matrices differ by {dR_same:.3g}"))
             elif k == "scale":
                 f = b2f(op["f"])
-                if any(not _close(ca[p][j], f * cb[p][j], mag) for j in range(3)):
-                    out.append(dict(kind="spec", clause="scale-multiplies-complete-position", detail=f"{tag} particle {p}: f={f}, {cb[p]} -> {ca[p]}"))
-                if aa[p] != ab[p]:
-                    out.append(dict(kind="spec", clause="scale-keeps-orientation", detail=f"{tag} particle {p}: angles {ab[p]} -> {aa[p]}"))
+                if any(not _close(ca[j], f * cb[j], mag) for j in range(3)):
+                    out.append(dict(kind="spec", clause="scale-multiplies-complete-position", detail=f"{tag} particle {p}: f={f}, {cb} -> {ca}"))
+                if dR_same > TOL:
+                    out.append(dict(kind="spec", clause="scale-keeps-orientation", detail=f"{tag} particle {p}: angles {ab} -> {aa}, matrices differ by {dR_same:.3g}"))
             elif k == "shift":
                 s = [b2f(x) for x in op["v"]]
-                want = [cb[p][j] + w for j, w in enumerate(_mv(Rb, s))]
-                if any(not _close(ca[p][j], want[j], mag + max(abs(x) for x in s)) for j in range(3)):
-                    out.append(dict(kind="spec", clause="shift-moves-by-own-orientation", detail=f"{tag} particle {p}: s={s}, angles={ab[p]}, {cb[p]} -> {ca[p]}, statement gives {want}"))
-                if aa[p] != ab[p] or ra[p][:3] != rb[p][:3]:
-                    out.append(dict(kind="spec", clause="shift-keeps-orientation-and-xyz", detail=f"{tag} particle {p}: angles {ab[p]} -> {aa[p]}, xyz {rb[p][:3]} -> {ra[p][:3]}"))
+                want = [cb[j] + w for j, w in enumerate(_mv(Rb, s))]
+                if any(not _close(ca[j], want[j], mag + max(abs(x) for x in s)) for j in range(3)):
+                    out.append(dict(kind="spec", clause="shift-moves-by-own-orientation", detail=f"{tag} particle {p}: s={s}, angles={ab}, {cb} -> {ca}, statement gives {want}"))
+                if dR_same > TOL:
+                    out.append(dict(kind="spec", clause="shift-keeps-orientation", detail=f"{tag} particle {p}: angles {ab} -> {aa}, matrices differ by {dR_same:.3g}"))
             elif k == "rotate":
                 q = [[b2f(op["q"][3 * a + b]) for b in range(3)] for a in range(3)]
                 d = _maxdiff(Ra, _mm(Rb, q))
                 dev["R"] = max(dev["R"], d)
                 if d > TOL:
-                    out.append(dict(kind="spec", clause="rotate-gives-R-times-Q", detail=f"{tag} particle {p}: angles {ab[p]} -> {aa[p]}; |R_after - R*Q| = {d:.3g}, |R_after - Q*R| = {_maxdiff(Ra, _mm(q, Rb)):.3g}"))
-                if ra[p][:6] != rb[p][:6]:
-                    out.append(dict(kind="spec", clause="rotate-moves-nothing", detail=f"{tag} particle {p}: {rb[p][:6]} -> {ra[p][:6]}"))
+                    out.append(dict(kind="spec", clause="rotate-gives-R-times-Q", detail=f"{tag} particle {p}: angles {ab} -> {aa}; |R_after - R*Q| = {d:.3g}, |R_after - Q*R| = {_maxdiff(Ra, _mm(q, Rb)):.3g}"))
+                if any(not _close(ca[j], cb[j], mag) for j in range(3)):
+                    out.append(dict(kind="spec", clause="rotate-moves-nothing", detail=f"{tag} particle {p}: complete position {cb} -> {ca}"))
             elif k == "flip":
-                d = _maxdiff(Ra, _mm(MZ, _mm(Rb, MZ)))
-                if d > TOL:
-                    out.append(dict(kind="spec", clause="flip-conjugates-orientation-by-z-mirror", detail=f"{tag} particle {p}: angles {ab[p]} -> {aa[p]}; |R_after - Mz R Mz| = {d:.3g}"))
-                dzb = _dz_of(op, B["rows"][p][9])
-                if op["dims"] is not None and dzb is not None:
+                dzb = _spec_dz(op, B["cells"][p][TOMO])
+                if dzb is not None:  # the statement speaks about this particle only when the dimensions cover its tomogram
                     dz = b2f(dzb)
-                    if ca[p][:2] != cb[p][:2] or not _close(ca[p][2], dz + 1 - cb[p][2], mag + dz):
-                        out.append(dict(kind="spec", clause="flip-mirrors-complete-z", detail=f"{tag} particle {p}: dim_z={dz}, complete position {cb[p]} -> {ca[p]}, statement gives z = {dz + 1 - cb[p][2]}"))
-                elif op["dims"] is None and ca[p] != cb[p]:
-                    out.append(dict(kind="spec", clause="flip-without-dimensions-moves-nothing", detail=f"{tag} particle {p}: {cb[p]} -> {ca[p]}"))
-        # flipping twice restores the list
-        if k == "flip" and i >= 1 and case["ops"][i - 1]["kind"] == "flip" and case["ops"][i - 1]["dims"] == op["dims"]:
-            r0 = _vals(st[i - 1]["rows"])
-            for p in range(n):
-                if any(not _close(ra[p][j], r0[p][j], abs(r0[p][j]) + 2000) for j in range(10)):
-                    out.append(dict(kind="spec", clause="flip-twice-restores-the-list", detail=f"op {i-1},{i} particle {p}: {r0[p]} -> {ra[p]}"))
+                    d = _maxdiff(Ra, _mm(MZ, _mm(Rb, MZ)))
+                    if d > TOL:
+                        out.append(dict(kind="spec", clause="flip-conjugates-orientation-by-z-mirror", detail=f"{tag} particle {p}: angles {ab} -> {aa}; |R_after - Mz R Mz| = {d:.3g}"))
+                    if ca[:2] != cb[:2] or not _close(ca[2], dz + 1 - cb[2], mag + dz):
+                        out.append(dict(kind="spec", clause="flip-mirrors-complete-z", detail=f"{tag} particle {p}: dim_z={dz}, complete position {cb} -> {ca}, statement gives z = {dz + 1 - cb[2]}"))
+        # flipping twice (same dimensions, same list, nothing in between on this list) restores the list -- all 20 fields
+        if k == "flip":
+            j0 = next((j for j in range(i - 1, -1, -1) if case["ops"][j].get("on", 0) == L), None)
+            if j0 is not None and case["ops"][j0]["kind"] == "flip" and case["ops"][j0]["dims"] == op["dims"] and "after" in obs["steps"][j0] and _usable(obs["steps"][j0]["before"][L]):
+                r0 = _vals(obs["steps"][j0]["before"][L]["cells"])
+                for p in range(n):
+                    if _spec_dz(op, B["cells"][p][TOMO]) is None:
+                        continue
+                    q0 = next((r for r in r0 if r[ID] == rb20[p][ID]), r0[p])
+                    bad = [COLS[j] for j in range(20) if (j not in (PHI, THETA, PSI) and not _close(ra20[p][j], q0[j], abs(q0[j]) + 2000))]
+                    if _maxdiff(_R([ra20[p][PHI], ra20[p][THETA], ra20[p][PSI]]), _R([q0[PHI], q0[THETA], q0[PSI]])) > TOL:
+                        bad.append("orientation")
+                    if bad:
+                        out.append(dict(kind="spec", clause="flip-twice-restores-the-list", detail=f"op {j0},{i} particle {p}: fields {bad} not restored: {q0} -> {ra20[p]}"))
         # ---- verified checker (exact rationals) on the implementation's output
         if chk is not None:
             if "error" in chk:
                 out.append(dict(kind="corr", clause="checker-error", detail=f"{tag}: {chk}"))
-            elif not all(chk["ok"]):
-                p = chk["ok"].index(False)
-                out.append(dict(kind="spec", clause=f"lean-checker-rejects-{k}", detail=f"{tag} particle {p}: before {rb[p]} after {ra[p]}"))
+            else:
+                okp = [chk["okpos"][j] for j in perm] if perm != list(range(n)) else chk["okpos"]
+                if perm == list(range(n)) and not all(okp):
+                    p = okp.index(False)
+                    out.append(dict(kind="spec", clause=f"lean-checker-rejects-{k}", detail=f"{tag} particle {p}: before {_p10(rb20[p])} after {_p10(ra20[p])}"))
+                elif perm == list(range(n)) and not all(chk["ok"]):
+                    flags["strict_flip_only_pos"] += 1
+                if k == "flip":
+                    cov_py = [_spec_dz(op, r[TOMO]) is not None for r in B["cells"]]
+                    if cov_py != chk["covered"]:
+                        out.append(dict(kind="corr", clause="coverage-python-vs-lean", detail=f"{tag}: {cov_py} vs {chk['covered']}"))
         # ---- correspondence with the Lean model run on the same before-state
+        if step is None:
+            continue
         if "error" in step:
             out.append(dict(kind="corr", clause="model-error", detail=f"{tag}: {step}")); continue
-        mr = _vals(step["rows"])
+        mr20 = _vals(step["rows"])
         dev["resid"] = max(dev["resid"], b2f(step["resid"]))
+        if k == "flip":
+            cov_py = [_spec_dz(op, r[TOMO]) is not None for r in B["cells"]]
+            cov_lean = [s is not None for s in step["spec"]]
+            if cov_py != cov_lean:
+                out.append(dict(kind="corr", clause="coverage-python-vs-lean", detail=f"{tag}: {cov_py} vs {cov_lean}"))
         for p in range(n):
+            # every field the operation has no business with (score, class, geom*, ids, tomo_id ... and x y z / shifts where untouched)
+            touched = {"update": (X, Y, Z, SX, SY, SZ), "scale": (X, Y, Z, SX, SY, SZ), "shift": (SX, SY, SZ), "rotate": (PHI, THETA, PSI), "flip": (Z, SZ, THETA)}[k]
+            other = [j for j in range(20) if j not in touched and j not in (PHI, THETA, PSI)]
+            badf = [COLS[j] for j in other if f2b(mr20[p][j]) != f2b(ra20[p][j])]
+            if badf:
+                out.append(dict(kind="corr", clause=f"{k}-other-fields-vs-model", detail=f"{tag} particle {p}: fields {badf} changed: before {rb20[p]}; code {ra20[p]}; model {mr20[p]}"))
+            mr, ra = _p10(mr20[p]), _p10(ra20[p])
             if k in ("update", "scale", "flip"):
-                if mr[p] != ra[p]:
-                    out.append(dict(kind="corr", clause=f"{k}-fields-vs-model", detail=f"{tag} particle {p}: before {rb[p]}; code {ra[p]}; model {mr[p]}"))
+                if mr[:6] != ra[:6]:
+                    out.append(dict(kind="corr", clause=f"{k}-fields-vs-model", detail=f"{tag} particle {p}: before {_p10(rb20[p])}; code {ra}; model {mr}"))
+                dR = _maxdiff(_R(mr[6:9]), _R(ra[6:9]))
+                dev["R"] = max(dev["R"], dR)
+                if dR > TOL:
+                    out.append(dict(kind="corr", clause=f"{k}-orientation-vs-model", detail=f"{tag} particle {p}: angles code {ra[6:9]}; model {mr[6:9]}; |R diff| {dR:.3g}"))
             else:
                 mp, mR = _pose_of_wire(step["pose"][p])
-                same = [j for j in range(10) if (j not in (3, 4, 5) if k == "shift" else j not in (6, 7, 8))]
-                if any(mr[p][j] != ra[p][j] for j in same):
-                    out.append(dict(kind="corr", clause=f"{k}-untouched-fields-vs-model", detail=f"{tag} particle {p}: code {ra[p]}; model {mr[p]}"))
-                mag = max(abs(v) for v in ra[p][:6]) + 50
-                dp = max(abs(mp[j] - ca[p][j]) for j in range(3))
-                dR = _maxdiff(mR, _R(aa[p]))
+                mag = max(abs(v) for v in ra[:6]) + 50
+                dp = max(abs(mp[j] - co_a[p][j]) for j in range(3))
+                dR = _maxdiff(mR, _R(ra[6:9]))
                 dev["pos"] = max(dev["pos"], dp); dev["R"] = max(dev["R"], dR)
                 if dp > TOL * (1 + mag) or dR > TOL:
-                    out.append(dict(kind="corr", clause=f"{k}-pose-vs-model", detail=f"{tag} particle {p}: |pos diff| {dp:.3g}, |R diff| {dR:.3g}; code {ra[p]}; model {mr[p]}"))
+                    out.append(dict(kind="corr", clause=f"{k}-pose-vs-model", detail=f"{tag} particle {p}: |pos diff| {dp:.3g}, |R diff| {dR:.3g}; code {ra}; model {mr}"))
                 if k == "rotate" and b2f(step["resid"]) > TOL:
                     out.append(dict(kind="corr", clause="model-euler-service-residual", detail=f"{tag}: EulerOK residual of the driver's Float service {b2f(step['resid']):.3g}"))
-    # ---- whole history: final pose vs. the specification folded over all operations (Lean specRun)
-    hist = resps[ri]
-    fin = st[-1]
-    cf, af, rf = _vals(fin["coords"]), _vals(fin["angles"]), _vals(fin["rows"])
-    if "error" in hist:
-        out.append(dict(kind="corr", clause="model-error", detail=f"history: {hist}"))
-    else:
+    # ---- whole history per list: final pose vs. the specification folded over all its operations (Lean specRun)
+    for L in range(nl):
+        hist = rmap.get(("history", None, L))
+        if hist is None or not alive[L]:
+            continue
+        fin = (obs["steps"][-1]["after"] if obs["steps"] else obs["initial"])[L]
+        rows0 = _vals((case["rows2"] if L == 1 else case["rows"]))
+        rf20 = _vals(fin["cells"])
+        if "error" in hist:
+            out.append(dict(kind="corr", clause="model-error", detail=f"history: {hist}")); continue
+        if len(rf20) != len(rows0):
+            continue
+        ids0 = [r[ID] for r in rows0]
+        idsf = [r[ID] for r in rf20]
+        if sorted(ids0) == sorted(idsf) and len(set(ids0)) == len(ids0):
+            rf20 = [rf20[idsf.index(v)] for v in ids0]
         scale = 1.0
         for o in case["ops"]:
-            if o["kind"] == "scale":
+            if o["kind"] == "scale" and o.get("on", 0) == L:
                 scale *= max(1.0, abs(b2f(o["f"])))
-        for p in range(n):
+        for p in range(len(rows0)):
+            rf = _p10(rf20[p])
+            cf = [rf[0] + rf[3], rf[1] + rf[4], rf[2] + rf[5]]
             for name in ("spec", "pose"):
+                if hist[name][p] is None:  # some call of the history is outside the quantifier for this particle: the statement is silent
+                    continue
                 sp, sR = _pose_of_wire(hist[name][p])
-                mag = (max(abs(v) for v in rf[p][:6]) + 2100) * scale
-                dp = max(abs(sp[j] - cf[p][j]) for j in range(3))
-                dR = _maxdiff(sR, _R(af[p]))
+                mag = (max(abs(v) for v in rf[:6]) + 2100) * scale
+                dp = max(abs(sp[j] - cf[j]) for j in range(3))
+                dR = _maxdiff(sR, _R(rf[6:9]))
                 dev["pos"] = max(dev["pos"], dp); dev["R"] = max(dev["R"], dR)
                 if dp > 10 * TOL * (1 + mag) or dR > 10 * TOL:
                     out.append(dict(kind="corr", clause=f"history-final-pose-vs-{'specification' if name == 'spec' else 'model'}",
-                                    detail=f"particle {p}: |pos diff| {dp:.3g}, |R diff| {dR:.3g}; code pos {cf[p]} angles {af[p]}; {name} pos {sp}"))
+                                    detail=f"list {L} particle {p}: |pos diff| {dp:.3g}, |R diff| {dR:.3g}; code pos {cf} angles {rf[6:9]}; {name} pos {sp}"))
     # ---- composition clause stated directly on the real code: two calls = the one combined call
-    if "twin" in case and "twin_final" in obs:
-        tf = obs["twin_final"]
-        ct, at_ = _vals(tf["coords"]), _vals(tf["angles"])
-        scale = 1.0
-        for o in case["ops"]:
-            if o["kind"] == "scale":
-                scale *= max(1.0, abs(b2f(o["f"])))
-        for p in range(n):
-            mag = (max(abs(v) for v in rf[p][:6]) + 2100) * scale
-            dp = max(abs(ct[p][j] - cf[p][j]) for j in range(3))
-            dR = _maxdiff(_R(at_[p]), _R(af[p]))
-            if dp > 10 * TOL * (1 + mag) or dR > 10 * TOL:
-                out.append(dict(kind="spec", clause="composition-" + case["twin"]["clause"],
-                                detail=f"particle {p}: two successive calls at op {case['twin']['at']} give pos {cf[p]} angles {af[p]}; the single combined call gives pos {ct[p]} angles {at_[p]}"))
+    if "twin_raised" in obs and len(obs["steps"]) == len(case["ops"]) and "raised" not in (obs["steps"][-1] if obs["steps"] else {}):
+        r = obs["twin_raised"]
+        out.append(dict(kind="spec" if r["in_cryocat"] else "corr", clause="raises" if r["in_cryocat"] else "harness-or-library-raised", detail=f"combined call of the composition clause: {r['error']} @{r['where']}"))
+    if "twin" in case and "twin_final" in obs and alive[0] and obs["steps"] and "after" in obs["steps"][-1] and _usable(obs["twin_final"]):
+        tf, fin = obs["twin_final"], obs["steps"][-1]["after"][0]
+        if _usable(fin) and len(tf["cells"]) == len(fin["cells"]):
+            rt, rf20 = _vals(tf["cells"]), _vals(fin["cells"])
+            scale = 1.0
+            for o in case["ops"]:
+                if o["kind"] == "scale":
+                    scale *= max(1.0, abs(b2f(o["f"])))
+            covered_all = lambda p: all(o["kind"] != "flip" or _spec_dz(o, case["rows"][p][TOMO]) is not None for o in case["ops"])
+            for p in range(len(rt)):
+                if not covered_all(p):
+                    continue
+                a, b = _p10(rf20[p]), _p10(rt[p])
+                cf, ct = [a[0] + a[3], a[1] + a[4], a[2] + a[5]], [b[0] + b[3], b[1] + b[4], b[2] + b[5]]
+                mag = (max(abs(v) for v in a[:6]) + 2100) * scale
+                dp = max(abs(ct[j] - cf[j]) for j in range(3))
+                dR = _maxdiff(_R(b[6:9]), _R(a[6:9]))
+                if dp > 10 * TOL * (1 + mag) or dR > 10 * TOL:
+                    out.append(dict(kind="spec", clause="composition-" + case["twin"]["clause"],
+                                    detail=f"particle {p}: two successive calls at op {case['twin']['at']} give pos {cf} angles {a[6:9]}; the single combined call gives pos {ct} angles {b[6:9]}"))
+    flags["dtypes"] = sorted(flags["dtypes"])
     obs["_dev"] = dev
+    obs["_flags"] = flags
     return out
 
 
 def nontrivial(case, obs):
-    if "error" in obs:
+    case = _norm_case(case)
+    if "error" in obs or len(obs.get("steps", [])) != len(case["ops"]) or (obs["steps"] and "after" not in obs["steps"][-1]):
         return False
     kinds = {o["kind"] for o in case["ops"]}
     vals = _vals(case["rows"])
-    return len(case["ops"]) >= 2 and len(kinds) >= 2 and any(r[3] != 0 or r[4] != 0 or r[5] != 0 for r in vals) and any(r[7] != 0 for r in vals)
+    return len(case["ops"]) >= 2 and len(kinds) >= 2 and any(r[SX] != 0 or r[SY] != 0 or r[SZ] != 0 for r in vals) and any(r[THETA] != 0 for r in vals)
 
 
 def stats(case, obs, resps):
+    case = _norm_case(case)
     vals = _vals(case["rows"])
-    out = {"n_ops": len(case["ops"]) if len(case["ops"]) <= 6 else "7+", "n_rows": len(vals) if len(vals) <= 8 else "9+",
-           "op": [o["kind"] for o in case["ops"]], "index": case.get("index", "default"),
-           "twin": case.get("twin", {}).get("clause", "none")}
-    out["flip_dims"] = [("none" if o["dims"] is None else ("single/" if "single" in o["dims"] else "table/") + o.get("form", "")) for o in case["ops"] if o["kind"] == "flip"]
-    ties = sum(1 for r in vals for j in range(3) if (r[j] + r[j + 3]) * 2 == math.floor((r[j] + r[j + 3]) * 2) and (r[j] + r[j + 3]) != math.floor(r[j] + r[j + 3]))
+    ops = case["ops"]
+    out = {"n_ops": len(ops) if len(ops) <= 6 else "7+", "n_rows": len(vals) if len(vals) <= 8 else "9+",
+           "op": [o["kind"] for o in ops], "index": case.get("index", "default") + ("+reimposed-before-every-op" if case.get("reindex") and case.get("index", "default") != "default" else ""),
+           "twin": case.get("twin", {}).get("clause", "none"), "lists": 2 if case.get("rows2") else 1, "per_tomogram_observers": bool(case.get("bytomo"))}
+    out["op_on_nondefault_index"] = [o["kind"] for i, o in enumerate(ops) if (case.get("index2" if o.get("on", 0) else "index", "default") != "default") and (case.get("reindex") or not any(p["kind"] == "shift" and p.get("on", 0) == o.get("on", 0) for p in ops[:i]))]
+    out["flip_dims"] = [("none" + ("/omitted" if o.get("omit") else "/None") if o["dims"] is None else ("single/" if "single" in o["dims"] else "table/") + o.get("form", "")) for o in ops if o["kind"] == "flip"]
+    cov = []
+    for o in ops:
+        if o["kind"] == "flip" and o["dims"] is not None and "table" in o["dims"]:
+            ts = [b2f(t) for t, _ in o["dims"]["table"]]
+            rows = _vals(case["rows2"] if o.get("on", 0) else case["rows"])
+            c = [(_spec_dz(o, f2b(r[TOMO])) is not None) for r in rows]
+            cov.append(("duplicate-rows/" if len(set(ts)) < len(ts) else "") + ("all-covered" if all(c) else "some-particle-outside-the-quantifier"))
+    out["flip_table_coverage"] = cov
+    out["shift_inplace"] = [str(o.get("inplace", "omit")) + "/" + o.get("form", "array") for o in ops if o["kind"] == "shift"]
+    out["keyword_call"] = [o["kind"] for o in ops if o.get("kw")]
+    shares = {}
+    for o in ops:
+        if o.get("share"):
+            shares.setdefault(o["share"], []).append(o)
+    out["shared_argument"] = [f"{v[0]['kind']}/{v[0].get('form', 'rotation')}/x{len(v)}" + ("/rewritten" if any(_wire_op(a) != _wire_op(v[0]) for a in v) else "") + ("/across-lists" if len({a.get('on', 0) for a in v}) > 1 else "") for v in shares.values()] or ["none"]
+    zs = sum(1 for r in vals if r[SX] == 0 and r[SY] == 0 and r[SZ] == 0 and any(r[j] != math.floor(r[j]) for j in (X, Y, Z)))
+    out["rows_zero_shift_noninteger"] = "0" if zs == 0 else "1+"
+    ties = sum(1 for r in vals for a, b in ((X, SX), (Y, SY), (Z, SZ)) if (r[a] + r[b]) * 2 == math.floor((r[a] + r[b]) * 2) and (r[a] + r[b]) != math.floor(r[a] + r[b]))
     out["initial_half_integer_ties"] = "0" if ties == 0 else ("1-3" if ties <= 3 else "4+")
-    out["negative_complete_coordinate"] = any(r[j] + r[j + 3] < 0 for r in vals for j in range(3))
-    out["gimbal_theta"] = any(r[7] % 180.0 == 0 for r in vals)
+    out["negative_complete_coordinate"] = any(r[a] + r[b] < 0 for r in vals for a, b in ((X, SX), (Y, SY), (Z, SZ)))
+    out["gimbal_theta"] = any(r[THETA] % 180.0 == 0 for r in vals)
     if "error" not in obs:
-        st = obs["states"]
-        out["lean_checker_steps"] = sum(1 for i, o in enumerate(case["ops"]) if _step_exact(o, st[i], st[i + 1]))
+        plan = _plan(case, obs)
+        out["lean_checker_steps"] = sum(1 for w, _, _ in plan if w == "check")
         upd_ties = 0
-        for i, o in enumerate(case["ops"]):
-            if o["kind"] == "update":
-                for r in _vals(st[i]["rows"]):
-                    upd_ties += sum(1 for j in range(3) if abs((r[j] + r[j + 3]) - math.floor(r[j] + r[j + 3]) - 0.5) == 0)
+        for i, rec in enumerate(obs["steps"]):
+            o = ops[i]
+            if o["kind"] == "update" and _usable(rec["before"][o.get("on", 0)]):
+                for r in _vals(rec["before"][o.get("on", 0)]["cells"]):
+                    upd_ties += sum(1 for a, b in ((X, SX), (Y, SY), (Z, SZ)) if abs((r[a] + r[b]) - math.floor(r[a] + r[b]) - 0.5) == 0)
         out["ties_met_by_update"] = "0" if upd_ties == 0 else ("1-3" if upd_ties <= 3 else "4+")
-        d = obs.get("_dev")
+        out["raised"] = any("raised" in r for r in obs["steps"])
+        d, fl = obs.get("_dev"), obs.get("_flags")
         if d:
             out["max_dev_pos"] = "<1e-12" if d["pos"] < 1e-12 else ("<1e-10" if d["pos"] < 1e-10 else "<1e-8" if d["pos"] < 1e-8 else ">=1e-8")
             out["max_dev_R"] = "<1e-14" if d["R"] < 1e-14 else ("<1e-12" if d["R"] < 1e-12 else "<1e-9" if d["R"] < 1e-9 else ">=1e-9")
             out["euler_service_residual"] = "<1e-14" if d["resid"] < 1e-14 else ("<1e-12" if d["resid"] < 1e-12 else ">=1e-12")
+        if fl:
+            out["column_dtypes_seen"] = fl["dtypes"] or ["(no operation)"]
+            out["angles_bit_identical_where_untouched"] = fl["angle_bits_changed"] == 0
     return out
 
 
@@ -891,12 +1585,15 @@ def probes(rng):
 
 LEVEL_TEXT = ("Lean 4 theorems about an executable, number-type-polymorphic model of update_coordinates / scale_coordinates / shift_positions / "
               "apply_rotation / flip_handedness: each operation and, by induction, every history of any length acts on the pose (complete position x+shift, "
-              "orientation matrix) exactly as the statement says (absPose_applyOpP, absPose_runOps), with update_spec (position kept, integers, |shift|<=1/2 "
-              "for ROUND_HALF_UP incl. ties), shift_shift, rotate_rotate, flip_flip, update_idem and verified exact checkers; tied to the source by regenerated "
-              "anchors (x+shift columns, rounding mode, scale loop, Euler sequence/units, R*Q order, flip offset and both flip branches) and by a per-operation "
-              "differential run of the real code against the model and against the statement")
-LEVEL_NOTE = ("the scipy services are hypotheses of the theorems, not proved: cos even/sin odd (CsOdd) and, for apply_rotation only, that as_euler's triple "
-              "reproduces the product matrix (EulerOK, per matrix); both are probed numerically each run; float round-off is outside the proofs (exact steps are "
-              "compared bit-exactly / by the exact Lean checker, trigonometric steps within 1e-9)")
-TECHNIQUE = "Lean 4 proof (ring identities over any commutative ring, Mz conjugation, induction over histories, Rat floor rounding) + regenerated anchors + per-step differential correspondence"
+              "orientation matrix) exactly as the statement says wherever the statement speaks (absPose_applyOpP, absPose_runOps; specOp is partial: a flip whose "
+              "dimensions do not cover the particle's tomogram is outside the quantifier), with update_spec (position kept, integers, |shift|<=1/2 "
+              "for ROUND_HALF_UP incl. ties), shift_shift, rotate_rotate, flip_flip, update_idem and verified exact checkers; over the reals every proper rotation "
+              "has zxz Euler angles (exists_zxz_of_rot, realSvc_eulerOK) so the history theorem holds without any assumption on the numeric services "
+              "(absPose_runOps_real); tied to the source by regenerated anchors (x+shift columns, rounding mode, scale loop, Euler sequence/units, R*Q order, "
+              "flip offset and both flip branches, signatures and defaults, alpha-normalised whole bodies) and by a per-operation differential run of the real "
+              "code against the model and against the statement (all 20 fields, dtypes, caller-owned arguments, two lists per process)")
+LEVEL_NOTE = ("for Float/Rat services the scipy facts are hypotheses of the theorems: cos even/sin odd (CsOdd) and, for apply_rotation only, that as_euler's triple "
+              "reproduces the product matrix (EulerOK, per matrix); both are probed numerically each run and are theorems for the real-number services; float "
+              "round-off is outside the proofs (exact steps are compared bit-exactly / by the exact Lean checker, trigonometric steps within 1e-9)")
+TECHNIQUE = "Lean 4 proof (ring identities over any commutative ring, Mz conjugation, cofactor identities and Euler-angle existence for SO(3), induction over histories, Rat floor rounding) + regenerated anchors + per-step differential correspondence"
 DESIGN_REF = "DESIGN.md section 4, C05"
